@@ -6,356 +6,708 @@ open Conform
 
 theorem conforms_v17_Abs : entryOK ("v17._Abs", Generated.Ctors.v17.f_abs, Generated.Schemas.v17.s_Abs_13) = true := by decide +kernel
 
+theorem slots_v17_Abs : slotOK ("v17._Abs", Generated.Ctors.v17.f_abs, Generated.Schemas.v17.s_Abs_13) = true := by decide +kernel
+
 theorem conforms_v17_Acos : entryOK ("v17._Acos", Generated.Ctors.v17.f_acos, Generated.Schemas.v17.s_Acos_7) = true := by decide +kernel
+
+theorem slots_v17_Acos : slotOK ("v17._Acos", Generated.Ctors.v17.f_acos, Generated.Schemas.v17.s_Acos_7) = true := by decide +kernel
 
 theorem conforms_v17_Acosh : entryOK ("v17._Acosh", Generated.Ctors.v17.f_acosh, Generated.Schemas.v17.s_Acosh_9) = true := by decide +kernel
 
+theorem slots_v17_Acosh : slotOK ("v17._Acosh", Generated.Ctors.v17.f_acosh, Generated.Schemas.v17.s_Acosh_9) = true := by decide +kernel
+
 theorem conforms_v17_Add : entryOK ("v17._Add", Generated.Ctors.v17.f_add, Generated.Schemas.v17.s_Add_14) = true := by decide +kernel
+
+theorem slots_v17_Add : slotOK ("v17._Add", Generated.Ctors.v17.f_add, Generated.Schemas.v17.s_Add_14) = true := by decide +kernel
 
 theorem conforms_v17_And : entryOK ("v17._And", Generated.Ctors.v17.f_and_, Generated.Schemas.v17.s_And_7) = true := by decide +kernel
 
+theorem slots_v17_And : slotOK ("v17._And", Generated.Ctors.v17.f_and_, Generated.Schemas.v17.s_And_7) = true := by decide +kernel
+
 theorem conforms_v17_ArgMax : entryOK ("v17._ArgMax", Generated.Ctors.v17.f_arg_max, Generated.Schemas.v17.s_ArgMax_13) = true := by decide +kernel
+
+theorem slots_v17_ArgMax : slotOK ("v17._ArgMax", Generated.Ctors.v17.f_arg_max, Generated.Schemas.v17.s_ArgMax_13) = true := by decide +kernel
 
 theorem conforms_v17_ArgMin : entryOK ("v17._ArgMin", Generated.Ctors.v17.f_arg_min, Generated.Schemas.v17.s_ArgMin_13) = true := by decide +kernel
 
+theorem slots_v17_ArgMin : slotOK ("v17._ArgMin", Generated.Ctors.v17.f_arg_min, Generated.Schemas.v17.s_ArgMin_13) = true := by decide +kernel
+
 theorem conforms_v17_Asin : entryOK ("v17._Asin", Generated.Ctors.v17.f_asin, Generated.Schemas.v17.s_Asin_7) = true := by decide +kernel
+
+theorem slots_v17_Asin : slotOK ("v17._Asin", Generated.Ctors.v17.f_asin, Generated.Schemas.v17.s_Asin_7) = true := by decide +kernel
 
 theorem conforms_v17_Asinh : entryOK ("v17._Asinh", Generated.Ctors.v17.f_asinh, Generated.Schemas.v17.s_Asinh_9) = true := by decide +kernel
 
+theorem slots_v17_Asinh : slotOK ("v17._Asinh", Generated.Ctors.v17.f_asinh, Generated.Schemas.v17.s_Asinh_9) = true := by decide +kernel
+
 theorem conforms_v17_Atan : entryOK ("v17._Atan", Generated.Ctors.v17.f_atan, Generated.Schemas.v17.s_Atan_7) = true := by decide +kernel
+
+theorem slots_v17_Atan : slotOK ("v17._Atan", Generated.Ctors.v17.f_atan, Generated.Schemas.v17.s_Atan_7) = true := by decide +kernel
 
 theorem conforms_v17_Atanh : entryOK ("v17._Atanh", Generated.Ctors.v17.f_atanh, Generated.Schemas.v17.s_Atanh_9) = true := by decide +kernel
 
+theorem slots_v17_Atanh : slotOK ("v17._Atanh", Generated.Ctors.v17.f_atanh, Generated.Schemas.v17.s_Atanh_9) = true := by decide +kernel
+
 theorem conforms_v17_AveragePool : entryOK ("v17._AveragePool", Generated.Ctors.v17.f_average_pool, Generated.Schemas.v17.s_AveragePool_11) = true := by decide +kernel
+
+theorem slots_v17_AveragePool : slotOK ("v17._AveragePool", Generated.Ctors.v17.f_average_pool, Generated.Schemas.v17.s_AveragePool_11) = true := by decide +kernel
 
 theorem conforms_v17_BatchNormalization : entryOK ("v17._BatchNormalization", Generated.Ctors.v17.f_batch_normalization, Generated.Schemas.v17.s_BatchNormalization_15) = true := by decide +kernel
 
+theorem slots_v17_BatchNormalization : slotOK ("v17._BatchNormalization", Generated.Ctors.v17.f_batch_normalization, Generated.Schemas.v17.s_BatchNormalization_15) = true := by decide +kernel
+
 theorem conforms_v17_Bernoulli : entryOK ("v17._Bernoulli", Generated.Ctors.v17.f_bernoulli, Generated.Schemas.v17.s_Bernoulli_15) = true := by decide +kernel
+
+theorem slots_v17_Bernoulli : slotOK ("v17._Bernoulli", Generated.Ctors.v17.f_bernoulli, Generated.Schemas.v17.s_Bernoulli_15) = true := by decide +kernel
 
 theorem conforms_v17_BitShift : entryOK ("v17._BitShift", Generated.Ctors.v17.f_bit_shift, Generated.Schemas.v17.s_BitShift_11) = true := by decide +kernel
 
+theorem slots_v17_BitShift : slotOK ("v17._BitShift", Generated.Ctors.v17.f_bit_shift, Generated.Schemas.v17.s_BitShift_11) = true := by decide +kernel
+
 theorem conforms_v17_BlackmanWindow : entryOK ("v17._BlackmanWindow", Generated.Ctors.v17.f_blackman_window, Generated.Schemas.v17.s_BlackmanWindow_17) = true := by decide +kernel
+
+theorem slots_v17_BlackmanWindow : slotOK ("v17._BlackmanWindow", Generated.Ctors.v17.f_blackman_window, Generated.Schemas.v17.s_BlackmanWindow_17) = true := by decide +kernel
 
 theorem conforms_v17_Cast : entryOK ("v17._Cast", Generated.Ctors.v17.f_cast, Generated.Schemas.v17.s_Cast_13) = true := by decide +kernel
 
+theorem slots_v17_Cast : slotOK ("v17._Cast", Generated.Ctors.v17.f_cast, Generated.Schemas.v17.s_Cast_13) = true := by decide +kernel
+
 theorem conforms_v17_CastLike : entryOK ("v17._CastLike", Generated.Ctors.v17.f_cast_like, Generated.Schemas.v17.s_CastLike_15) = true := by decide +kernel
+
+theorem slots_v17_CastLike : slotOK ("v17._CastLike", Generated.Ctors.v17.f_cast_like, Generated.Schemas.v17.s_CastLike_15) = true := by decide +kernel
 
 theorem conforms_v17_Ceil : entryOK ("v17._Ceil", Generated.Ctors.v17.f_ceil, Generated.Schemas.v17.s_Ceil_13) = true := by decide +kernel
 
+theorem slots_v17_Ceil : slotOK ("v17._Ceil", Generated.Ctors.v17.f_ceil, Generated.Schemas.v17.s_Ceil_13) = true := by decide +kernel
+
 theorem conforms_v17_Celu : entryOK ("v17._Celu", Generated.Ctors.v17.f_celu, Generated.Schemas.v17.s_Celu_12) = true := by decide +kernel
+
+theorem slots_v17_Celu : slotOK ("v17._Celu", Generated.Ctors.v17.f_celu, Generated.Schemas.v17.s_Celu_12) = true := by decide +kernel
 
 theorem conforms_v17_Clip : entryOK ("v17._Clip", Generated.Ctors.v17.f_clip, Generated.Schemas.v17.s_Clip_13) = true := by decide +kernel
 
+theorem slots_v17_Clip : slotOK ("v17._Clip", Generated.Ctors.v17.f_clip, Generated.Schemas.v17.s_Clip_13) = true := by decide +kernel
+
 theorem conforms_v17_Compress : entryOK ("v17._Compress", Generated.Ctors.v17.f_compress, Generated.Schemas.v17.s_Compress_11) = true := by decide +kernel
+
+theorem slots_v17_Compress : slotOK ("v17._Compress", Generated.Ctors.v17.f_compress, Generated.Schemas.v17.s_Compress_11) = true := by decide +kernel
 
 theorem conforms_v17_Concat : entryOK ("v17._Concat", Generated.Ctors.v17.f_concat, Generated.Schemas.v17.s_Concat_13) = true := by decide +kernel
 
+theorem slots_v17_Concat : slotOK ("v17._Concat", Generated.Ctors.v17.f_concat, Generated.Schemas.v17.s_Concat_13) = true := by decide +kernel
+
 theorem conforms_v17_ConcatFromSequence : entryOK ("v17._ConcatFromSequence", Generated.Ctors.v17.f_concat_from_sequence, Generated.Schemas.v17.s_ConcatFromSequence_11) = true := by decide +kernel
+
+theorem slots_v17_ConcatFromSequence : slotOK ("v17._ConcatFromSequence", Generated.Ctors.v17.f_concat_from_sequence, Generated.Schemas.v17.s_ConcatFromSequence_11) = true := by decide +kernel
 
 /-- known deviation (findings.d/C11.json): conforms in everything but the absent attribute(s) -/
 theorem conforms_v17_Constant : entryOKExcept ["sparse_value"] ("v17._Constant", Generated.Ctors.v17.f_constant, Generated.Schemas.v17.s_Constant_13) = true := by decide +kernel
 
+theorem slots_v17_Constant : slotOK ("v17._Constant", Generated.Ctors.v17.f_constant, Generated.Schemas.v17.s_Constant_13) = true := by decide +kernel
+
 theorem conforms_v17_ConstantOfShape : entryOK ("v17._ConstantOfShape", Generated.Ctors.v17.f_constant_of_shape, Generated.Schemas.v17.s_ConstantOfShape_9) = true := by decide +kernel
+
+theorem slots_v17_ConstantOfShape : slotOK ("v17._ConstantOfShape", Generated.Ctors.v17.f_constant_of_shape, Generated.Schemas.v17.s_ConstantOfShape_9) = true := by decide +kernel
 
 theorem conforms_v17_Conv : entryOK ("v17._Conv", Generated.Ctors.v17.f_conv, Generated.Schemas.v17.s_Conv_11) = true := by decide +kernel
 
+theorem slots_v17_Conv : slotOK ("v17._Conv", Generated.Ctors.v17.f_conv, Generated.Schemas.v17.s_Conv_11) = true := by decide +kernel
+
 theorem conforms_v17_ConvInteger : entryOK ("v17._ConvInteger", Generated.Ctors.v17.f_conv_integer, Generated.Schemas.v17.s_ConvInteger_10) = true := by decide +kernel
+
+theorem slots_v17_ConvInteger : slotOK ("v17._ConvInteger", Generated.Ctors.v17.f_conv_integer, Generated.Schemas.v17.s_ConvInteger_10) = true := by decide +kernel
 
 theorem conforms_v17_ConvTranspose : entryOK ("v17._ConvTranspose", Generated.Ctors.v17.f_conv_transpose, Generated.Schemas.v17.s_ConvTranspose_11) = true := by decide +kernel
 
+theorem slots_v17_ConvTranspose : slotOK ("v17._ConvTranspose", Generated.Ctors.v17.f_conv_transpose, Generated.Schemas.v17.s_ConvTranspose_11) = true := by decide +kernel
+
 theorem conforms_v17_Cos : entryOK ("v17._Cos", Generated.Ctors.v17.f_cos, Generated.Schemas.v17.s_Cos_7) = true := by decide +kernel
+
+theorem slots_v17_Cos : slotOK ("v17._Cos", Generated.Ctors.v17.f_cos, Generated.Schemas.v17.s_Cos_7) = true := by decide +kernel
 
 theorem conforms_v17_Cosh : entryOK ("v17._Cosh", Generated.Ctors.v17.f_cosh, Generated.Schemas.v17.s_Cosh_9) = true := by decide +kernel
 
+theorem slots_v17_Cosh : slotOK ("v17._Cosh", Generated.Ctors.v17.f_cosh, Generated.Schemas.v17.s_Cosh_9) = true := by decide +kernel
+
 theorem conforms_v17_CumSum : entryOK ("v17._CumSum", Generated.Ctors.v17.f_cumsum, Generated.Schemas.v17.s_CumSum_14) = true := by decide +kernel
+
+theorem slots_v17_CumSum : slotOK ("v17._CumSum", Generated.Ctors.v17.f_cumsum, Generated.Schemas.v17.s_CumSum_14) = true := by decide +kernel
 
 theorem conforms_v17_DFT : entryOK ("v17._DFT", Generated.Ctors.v17.f_dft, Generated.Schemas.v17.s_DFT_17) = true := by decide +kernel
 
+theorem slots_v17_DFT : slotOK ("v17._DFT", Generated.Ctors.v17.f_dft, Generated.Schemas.v17.s_DFT_17) = true := by decide +kernel
+
 theorem conforms_v17_DepthToSpace : entryOK ("v17._DepthToSpace", Generated.Ctors.v17.f_depth_to_space, Generated.Schemas.v17.s_DepthToSpace_13) = true := by decide +kernel
+
+theorem slots_v17_DepthToSpace : slotOK ("v17._DepthToSpace", Generated.Ctors.v17.f_depth_to_space, Generated.Schemas.v17.s_DepthToSpace_13) = true := by decide +kernel
 
 theorem conforms_v17_DequantizeLinear : entryOK ("v17._DequantizeLinear", Generated.Ctors.v17.f_dequantize_linear, Generated.Schemas.v17.s_DequantizeLinear_13) = true := by decide +kernel
 
+theorem slots_v17_DequantizeLinear : slotOK ("v17._DequantizeLinear", Generated.Ctors.v17.f_dequantize_linear, Generated.Schemas.v17.s_DequantizeLinear_13) = true := by decide +kernel
+
 theorem conforms_v17_Det : entryOK ("v17._Det", Generated.Ctors.v17.f_det, Generated.Schemas.v17.s_Det_11) = true := by decide +kernel
+
+theorem slots_v17_Det : slotOK ("v17._Det", Generated.Ctors.v17.f_det, Generated.Schemas.v17.s_Det_11) = true := by decide +kernel
 
 theorem conforms_v17_Div : entryOK ("v17._Div", Generated.Ctors.v17.f_div, Generated.Schemas.v17.s_Div_14) = true := by decide +kernel
 
+theorem slots_v17_Div : slotOK ("v17._Div", Generated.Ctors.v17.f_div, Generated.Schemas.v17.s_Div_14) = true := by decide +kernel
+
 theorem conforms_v17_Dropout : entryOK ("v17._Dropout", Generated.Ctors.v17.f_dropout, Generated.Schemas.v17.s_Dropout_13) = true := by decide +kernel
+
+theorem slots_v17_Dropout : slotOK ("v17._Dropout", Generated.Ctors.v17.f_dropout, Generated.Schemas.v17.s_Dropout_13) = true := by decide +kernel
 
 theorem conforms_v17_DynamicQuantizeLinear : entryOK ("v17._DynamicQuantizeLinear", Generated.Ctors.v17.f_dynamic_quantize_linear, Generated.Schemas.v17.s_DynamicQuantizeLinear_11) = true := by decide +kernel
 
+theorem slots_v17_DynamicQuantizeLinear : slotOK ("v17._DynamicQuantizeLinear", Generated.Ctors.v17.f_dynamic_quantize_linear, Generated.Schemas.v17.s_DynamicQuantizeLinear_11) = true := by decide +kernel
+
 theorem conforms_v17_Einsum : entryOK ("v17._Einsum", Generated.Ctors.v17.f_einsum, Generated.Schemas.v17.s_Einsum_12) = true := by decide +kernel
+
+theorem slots_v17_Einsum : slotOK ("v17._Einsum", Generated.Ctors.v17.f_einsum, Generated.Schemas.v17.s_Einsum_12) = true := by decide +kernel
 
 theorem conforms_v17_Elu : entryOK ("v17._Elu", Generated.Ctors.v17.f_elu, Generated.Schemas.v17.s_Elu_6) = true := by decide +kernel
 
+theorem slots_v17_Elu : slotOK ("v17._Elu", Generated.Ctors.v17.f_elu, Generated.Schemas.v17.s_Elu_6) = true := by decide +kernel
+
 theorem conforms_v17_Equal : entryOK ("v17._Equal", Generated.Ctors.v17.f_equal, Generated.Schemas.v17.s_Equal_13) = true := by decide +kernel
+
+theorem slots_v17_Equal : slotOK ("v17._Equal", Generated.Ctors.v17.f_equal, Generated.Schemas.v17.s_Equal_13) = true := by decide +kernel
 
 theorem conforms_v17_Erf : entryOK ("v17._Erf", Generated.Ctors.v17.f_erf, Generated.Schemas.v17.s_Erf_13) = true := by decide +kernel
 
+theorem slots_v17_Erf : slotOK ("v17._Erf", Generated.Ctors.v17.f_erf, Generated.Schemas.v17.s_Erf_13) = true := by decide +kernel
+
 theorem conforms_v17_Exp : entryOK ("v17._Exp", Generated.Ctors.v17.f_exp, Generated.Schemas.v17.s_Exp_13) = true := by decide +kernel
+
+theorem slots_v17_Exp : slotOK ("v17._Exp", Generated.Ctors.v17.f_exp, Generated.Schemas.v17.s_Exp_13) = true := by decide +kernel
 
 theorem conforms_v17_Expand : entryOK ("v17._Expand", Generated.Ctors.v17.f_expand, Generated.Schemas.v17.s_Expand_13) = true := by decide +kernel
 
+theorem slots_v17_Expand : slotOK ("v17._Expand", Generated.Ctors.v17.f_expand, Generated.Schemas.v17.s_Expand_13) = true := by decide +kernel
+
 theorem conforms_v17_EyeLike : entryOK ("v17._EyeLike", Generated.Ctors.v17.f_eye_like, Generated.Schemas.v17.s_EyeLike_9) = true := by decide +kernel
+
+theorem slots_v17_EyeLike : slotOK ("v17._EyeLike", Generated.Ctors.v17.f_eye_like, Generated.Schemas.v17.s_EyeLike_9) = true := by decide +kernel
 
 theorem conforms_v17_Flatten : entryOK ("v17._Flatten", Generated.Ctors.v17.f_flatten, Generated.Schemas.v17.s_Flatten_13) = true := by decide +kernel
 
+theorem slots_v17_Flatten : slotOK ("v17._Flatten", Generated.Ctors.v17.f_flatten, Generated.Schemas.v17.s_Flatten_13) = true := by decide +kernel
+
 theorem conforms_v17_Floor : entryOK ("v17._Floor", Generated.Ctors.v17.f_floor, Generated.Schemas.v17.s_Floor_13) = true := by decide +kernel
+
+theorem slots_v17_Floor : slotOK ("v17._Floor", Generated.Ctors.v17.f_floor, Generated.Schemas.v17.s_Floor_13) = true := by decide +kernel
 
 theorem conforms_v17_GRU : entryOK ("v17._GRU", Generated.Ctors.v17.f_gru, Generated.Schemas.v17.s_GRU_14) = true := by decide +kernel
 
+theorem slots_v17_GRU : slotOK ("v17._GRU", Generated.Ctors.v17.f_gru, Generated.Schemas.v17.s_GRU_14) = true := by decide +kernel
+
 theorem conforms_v17_Gather : entryOK ("v17._Gather", Generated.Ctors.v17.f_gather, Generated.Schemas.v17.s_Gather_13) = true := by decide +kernel
+
+theorem slots_v17_Gather : slotOK ("v17._Gather", Generated.Ctors.v17.f_gather, Generated.Schemas.v17.s_Gather_13) = true := by decide +kernel
 
 theorem conforms_v17_GatherElements : entryOK ("v17._GatherElements", Generated.Ctors.v17.f_gather_elements, Generated.Schemas.v17.s_GatherElements_13) = true := by decide +kernel
 
+theorem slots_v17_GatherElements : slotOK ("v17._GatherElements", Generated.Ctors.v17.f_gather_elements, Generated.Schemas.v17.s_GatherElements_13) = true := by decide +kernel
+
 theorem conforms_v17_GatherND : entryOK ("v17._GatherND", Generated.Ctors.v17.f_gather_nd, Generated.Schemas.v17.s_GatherND_13) = true := by decide +kernel
+
+theorem slots_v17_GatherND : slotOK ("v17._GatherND", Generated.Ctors.v17.f_gather_nd, Generated.Schemas.v17.s_GatherND_13) = true := by decide +kernel
 
 theorem conforms_v17_Gemm : entryOK ("v17._Gemm", Generated.Ctors.v17.f_gemm, Generated.Schemas.v17.s_Gemm_13) = true := by decide +kernel
 
+theorem slots_v17_Gemm : slotOK ("v17._Gemm", Generated.Ctors.v17.f_gemm, Generated.Schemas.v17.s_Gemm_13) = true := by decide +kernel
+
 theorem conforms_v17_GlobalAveragePool : entryOK ("v17._GlobalAveragePool", Generated.Ctors.v17.f_global_average_pool, Generated.Schemas.v17.s_GlobalAveragePool_1) = true := by decide +kernel
+
+theorem slots_v17_GlobalAveragePool : slotOK ("v17._GlobalAveragePool", Generated.Ctors.v17.f_global_average_pool, Generated.Schemas.v17.s_GlobalAveragePool_1) = true := by decide +kernel
 
 theorem conforms_v17_GlobalLpPool : entryOK ("v17._GlobalLpPool", Generated.Ctors.v17.f_global_lp_pool, Generated.Schemas.v17.s_GlobalLpPool_2) = true := by decide +kernel
 
+theorem slots_v17_GlobalLpPool : slotOK ("v17._GlobalLpPool", Generated.Ctors.v17.f_global_lp_pool, Generated.Schemas.v17.s_GlobalLpPool_2) = true := by decide +kernel
+
 theorem conforms_v17_GlobalMaxPool : entryOK ("v17._GlobalMaxPool", Generated.Ctors.v17.f_global_max_pool, Generated.Schemas.v17.s_GlobalMaxPool_1) = true := by decide +kernel
+
+theorem slots_v17_GlobalMaxPool : slotOK ("v17._GlobalMaxPool", Generated.Ctors.v17.f_global_max_pool, Generated.Schemas.v17.s_GlobalMaxPool_1) = true := by decide +kernel
 
 theorem conforms_v17_Greater : entryOK ("v17._Greater", Generated.Ctors.v17.f_greater, Generated.Schemas.v17.s_Greater_13) = true := by decide +kernel
 
+theorem slots_v17_Greater : slotOK ("v17._Greater", Generated.Ctors.v17.f_greater, Generated.Schemas.v17.s_Greater_13) = true := by decide +kernel
+
 theorem conforms_v17_GreaterOrEqual : entryOK ("v17._GreaterOrEqual", Generated.Ctors.v17.f_greater_or_equal, Generated.Schemas.v17.s_GreaterOrEqual_16) = true := by decide +kernel
+
+theorem slots_v17_GreaterOrEqual : slotOK ("v17._GreaterOrEqual", Generated.Ctors.v17.f_greater_or_equal, Generated.Schemas.v17.s_GreaterOrEqual_16) = true := by decide +kernel
 
 theorem conforms_v17_GridSample : entryOK ("v17._GridSample", Generated.Ctors.v17.f_grid_sample, Generated.Schemas.v17.s_GridSample_16) = true := by decide +kernel
 
+theorem slots_v17_GridSample : slotOK ("v17._GridSample", Generated.Ctors.v17.f_grid_sample, Generated.Schemas.v17.s_GridSample_16) = true := by decide +kernel
+
 theorem conforms_v17_HammingWindow : entryOK ("v17._HammingWindow", Generated.Ctors.v17.f_hamming_window, Generated.Schemas.v17.s_HammingWindow_17) = true := by decide +kernel
+
+theorem slots_v17_HammingWindow : slotOK ("v17._HammingWindow", Generated.Ctors.v17.f_hamming_window, Generated.Schemas.v17.s_HammingWindow_17) = true := by decide +kernel
 
 theorem conforms_v17_HannWindow : entryOK ("v17._HannWindow", Generated.Ctors.v17.f_hann_window, Generated.Schemas.v17.s_HannWindow_17) = true := by decide +kernel
 
+theorem slots_v17_HannWindow : slotOK ("v17._HannWindow", Generated.Ctors.v17.f_hann_window, Generated.Schemas.v17.s_HannWindow_17) = true := by decide +kernel
+
 theorem conforms_v17_HardSigmoid : entryOK ("v17._HardSigmoid", Generated.Ctors.v17.f_hard_sigmoid, Generated.Schemas.v17.s_HardSigmoid_6) = true := by decide +kernel
+
+theorem slots_v17_HardSigmoid : slotOK ("v17._HardSigmoid", Generated.Ctors.v17.f_hard_sigmoid, Generated.Schemas.v17.s_HardSigmoid_6) = true := by decide +kernel
 
 theorem conforms_v17_HardSwish : entryOK ("v17._HardSwish", Generated.Ctors.v17.f_hard_swish, Generated.Schemas.v17.s_HardSwish_14) = true := by decide +kernel
 
+theorem slots_v17_HardSwish : slotOK ("v17._HardSwish", Generated.Ctors.v17.f_hard_swish, Generated.Schemas.v17.s_HardSwish_14) = true := by decide +kernel
+
 theorem conforms_v17_Hardmax : entryOK ("v17._Hardmax", Generated.Ctors.v17.f_hardmax, Generated.Schemas.v17.s_Hardmax_13) = true := by decide +kernel
+
+theorem slots_v17_Hardmax : slotOK ("v17._Hardmax", Generated.Ctors.v17.f_hardmax, Generated.Schemas.v17.s_Hardmax_13) = true := by decide +kernel
 
 theorem conforms_v17_Identity : entryOK ("v17._Identity", Generated.Ctors.v17.f_identity, Generated.Schemas.v17.s_Identity_16) = true := by decide +kernel
 
+theorem slots_v17_Identity : slotOK ("v17._Identity", Generated.Ctors.v17.f_identity, Generated.Schemas.v17.s_Identity_16) = true := by decide +kernel
+
 theorem conforms_v17_If : entryOK ("v17._If", Generated.Ctors.v17.f_if_, Generated.Schemas.v17.s_If_16) = true := by decide +kernel
+
+theorem slots_v17_If : slotOK ("v17._If", Generated.Ctors.v17.f_if_, Generated.Schemas.v17.s_If_16) = true := by decide +kernel
 
 theorem conforms_v17_InstanceNormalization : entryOK ("v17._InstanceNormalization", Generated.Ctors.v17.f_instance_normalization, Generated.Schemas.v17.s_InstanceNormalization_6) = true := by decide +kernel
 
+theorem slots_v17_InstanceNormalization : slotOK ("v17._InstanceNormalization", Generated.Ctors.v17.f_instance_normalization, Generated.Schemas.v17.s_InstanceNormalization_6) = true := by decide +kernel
+
 theorem conforms_v17_IsInf : entryOK ("v17._IsInf", Generated.Ctors.v17.f_isinf, Generated.Schemas.v17.s_IsInf_10) = true := by decide +kernel
+
+theorem slots_v17_IsInf : slotOK ("v17._IsInf", Generated.Ctors.v17.f_isinf, Generated.Schemas.v17.s_IsInf_10) = true := by decide +kernel
 
 theorem conforms_v17_IsNaN : entryOK ("v17._IsNaN", Generated.Ctors.v17.f_isnan, Generated.Schemas.v17.s_IsNaN_13) = true := by decide +kernel
 
+theorem slots_v17_IsNaN : slotOK ("v17._IsNaN", Generated.Ctors.v17.f_isnan, Generated.Schemas.v17.s_IsNaN_13) = true := by decide +kernel
+
 theorem conforms_v17_LRN : entryOK ("v17._LRN", Generated.Ctors.v17.f_lrn, Generated.Schemas.v17.s_LRN_13) = true := by decide +kernel
+
+theorem slots_v17_LRN : slotOK ("v17._LRN", Generated.Ctors.v17.f_lrn, Generated.Schemas.v17.s_LRN_13) = true := by decide +kernel
 
 theorem conforms_v17_LSTM : entryOK ("v17._LSTM", Generated.Ctors.v17.f_lstm, Generated.Schemas.v17.s_LSTM_14) = true := by decide +kernel
 
+theorem slots_v17_LSTM : slotOK ("v17._LSTM", Generated.Ctors.v17.f_lstm, Generated.Schemas.v17.s_LSTM_14) = true := by decide +kernel
+
 theorem conforms_v17_LayerNormalization : entryOK ("v17._LayerNormalization", Generated.Ctors.v17.f_layer_normalization, Generated.Schemas.v17.s_LayerNormalization_17) = true := by decide +kernel
+
+theorem slots_v17_LayerNormalization : slotOK ("v17._LayerNormalization", Generated.Ctors.v17.f_layer_normalization, Generated.Schemas.v17.s_LayerNormalization_17) = true := by decide +kernel
 
 theorem conforms_v17_LeakyRelu : entryOK ("v17._LeakyRelu", Generated.Ctors.v17.f_leaky_relu, Generated.Schemas.v17.s_LeakyRelu_16) = true := by decide +kernel
 
+theorem slots_v17_LeakyRelu : slotOK ("v17._LeakyRelu", Generated.Ctors.v17.f_leaky_relu, Generated.Schemas.v17.s_LeakyRelu_16) = true := by decide +kernel
+
 theorem conforms_v17_Less : entryOK ("v17._Less", Generated.Ctors.v17.f_less, Generated.Schemas.v17.s_Less_13) = true := by decide +kernel
+
+theorem slots_v17_Less : slotOK ("v17._Less", Generated.Ctors.v17.f_less, Generated.Schemas.v17.s_Less_13) = true := by decide +kernel
 
 theorem conforms_v17_LessOrEqual : entryOK ("v17._LessOrEqual", Generated.Ctors.v17.f_less_or_equal, Generated.Schemas.v17.s_LessOrEqual_16) = true := by decide +kernel
 
+theorem slots_v17_LessOrEqual : slotOK ("v17._LessOrEqual", Generated.Ctors.v17.f_less_or_equal, Generated.Schemas.v17.s_LessOrEqual_16) = true := by decide +kernel
+
 theorem conforms_v17_Log : entryOK ("v17._Log", Generated.Ctors.v17.f_log, Generated.Schemas.v17.s_Log_13) = true := by decide +kernel
+
+theorem slots_v17_Log : slotOK ("v17._Log", Generated.Ctors.v17.f_log, Generated.Schemas.v17.s_Log_13) = true := by decide +kernel
 
 theorem conforms_v17_LogSoftmax : entryOK ("v17._LogSoftmax", Generated.Ctors.v17.f_log_softmax, Generated.Schemas.v17.s_LogSoftmax_13) = true := by decide +kernel
 
+theorem slots_v17_LogSoftmax : slotOK ("v17._LogSoftmax", Generated.Ctors.v17.f_log_softmax, Generated.Schemas.v17.s_LogSoftmax_13) = true := by decide +kernel
+
 theorem conforms_v17_Loop : entryOK ("v17._Loop", Generated.Ctors.v17.f_loop, Generated.Schemas.v17.s_Loop_16) = true := by decide +kernel
+
+theorem slots_v17_Loop : slotOK ("v17._Loop", Generated.Ctors.v17.f_loop, Generated.Schemas.v17.s_Loop_16) = true := by decide +kernel
 
 theorem conforms_v17_LpNormalization : entryOK ("v17._LpNormalization", Generated.Ctors.v17.f_lp_normalization, Generated.Schemas.v17.s_LpNormalization_1) = true := by decide +kernel
 
+theorem slots_v17_LpNormalization : slotOK ("v17._LpNormalization", Generated.Ctors.v17.f_lp_normalization, Generated.Schemas.v17.s_LpNormalization_1) = true := by decide +kernel
+
 theorem conforms_v17_LpPool : entryOK ("v17._LpPool", Generated.Ctors.v17.f_lp_pool, Generated.Schemas.v17.s_LpPool_11) = true := by decide +kernel
+
+theorem slots_v17_LpPool : slotOK ("v17._LpPool", Generated.Ctors.v17.f_lp_pool, Generated.Schemas.v17.s_LpPool_11) = true := by decide +kernel
 
 theorem conforms_v17_MatMul : entryOK ("v17._MatMul", Generated.Ctors.v17.f_matmul, Generated.Schemas.v17.s_MatMul_13) = true := by decide +kernel
 
+theorem slots_v17_MatMul : slotOK ("v17._MatMul", Generated.Ctors.v17.f_matmul, Generated.Schemas.v17.s_MatMul_13) = true := by decide +kernel
+
 theorem conforms_v17_MatMulInteger : entryOK ("v17._MatMulInteger", Generated.Ctors.v17.f_matmul_integer, Generated.Schemas.v17.s_MatMulInteger_10) = true := by decide +kernel
+
+theorem slots_v17_MatMulInteger : slotOK ("v17._MatMulInteger", Generated.Ctors.v17.f_matmul_integer, Generated.Schemas.v17.s_MatMulInteger_10) = true := by decide +kernel
 
 theorem conforms_v17_Max : entryOK ("v17._Max", Generated.Ctors.v17.f_max, Generated.Schemas.v17.s_Max_13) = true := by decide +kernel
 
+theorem slots_v17_Max : slotOK ("v17._Max", Generated.Ctors.v17.f_max, Generated.Schemas.v17.s_Max_13) = true := by decide +kernel
+
 theorem conforms_v17_MaxPool : entryOK ("v17._MaxPool", Generated.Ctors.v17.f_max_pool, Generated.Schemas.v17.s_MaxPool_12) = true := by decide +kernel
+
+theorem slots_v17_MaxPool : slotOK ("v17._MaxPool", Generated.Ctors.v17.f_max_pool, Generated.Schemas.v17.s_MaxPool_12) = true := by decide +kernel
 
 theorem conforms_v17_MaxRoiPool : entryOK ("v17._MaxRoiPool", Generated.Ctors.v17.f_max_roi_pool, Generated.Schemas.v17.s_MaxRoiPool_1) = true := by decide +kernel
 
+theorem slots_v17_MaxRoiPool : slotOK ("v17._MaxRoiPool", Generated.Ctors.v17.f_max_roi_pool, Generated.Schemas.v17.s_MaxRoiPool_1) = true := by decide +kernel
+
 theorem conforms_v17_MaxUnpool : entryOK ("v17._MaxUnpool", Generated.Ctors.v17.f_max_unpool, Generated.Schemas.v17.s_MaxUnpool_11) = true := by decide +kernel
+
+theorem slots_v17_MaxUnpool : slotOK ("v17._MaxUnpool", Generated.Ctors.v17.f_max_unpool, Generated.Schemas.v17.s_MaxUnpool_11) = true := by decide +kernel
 
 theorem conforms_v17_Mean : entryOK ("v17._Mean", Generated.Ctors.v17.f_mean, Generated.Schemas.v17.s_Mean_13) = true := by decide +kernel
 
+theorem slots_v17_Mean : slotOK ("v17._Mean", Generated.Ctors.v17.f_mean, Generated.Schemas.v17.s_Mean_13) = true := by decide +kernel
+
 theorem conforms_v17_MeanVarianceNormalization : entryOK ("v17._MeanVarianceNormalization", Generated.Ctors.v17.f_mean_variance_normalization, Generated.Schemas.v17.s_MeanVarianceNormalization_13) = true := by decide +kernel
+
+theorem slots_v17_MeanVarianceNormalization : slotOK ("v17._MeanVarianceNormalization", Generated.Ctors.v17.f_mean_variance_normalization, Generated.Schemas.v17.s_MeanVarianceNormalization_13) = true := by decide +kernel
 
 theorem conforms_v17_MelWeightMatrix : entryOK ("v17._MelWeightMatrix", Generated.Ctors.v17.f_mel_weight_matrix, Generated.Schemas.v17.s_MelWeightMatrix_17) = true := by decide +kernel
 
+theorem slots_v17_MelWeightMatrix : slotOK ("v17._MelWeightMatrix", Generated.Ctors.v17.f_mel_weight_matrix, Generated.Schemas.v17.s_MelWeightMatrix_17) = true := by decide +kernel
+
 theorem conforms_v17_Min : entryOK ("v17._Min", Generated.Ctors.v17.f_min, Generated.Schemas.v17.s_Min_13) = true := by decide +kernel
+
+theorem slots_v17_Min : slotOK ("v17._Min", Generated.Ctors.v17.f_min, Generated.Schemas.v17.s_Min_13) = true := by decide +kernel
 
 theorem conforms_v17_Mod : entryOK ("v17._Mod", Generated.Ctors.v17.f_mod, Generated.Schemas.v17.s_Mod_13) = true := by decide +kernel
 
+theorem slots_v17_Mod : slotOK ("v17._Mod", Generated.Ctors.v17.f_mod, Generated.Schemas.v17.s_Mod_13) = true := by decide +kernel
+
 theorem conforms_v17_Mul : entryOK ("v17._Mul", Generated.Ctors.v17.f_mul, Generated.Schemas.v17.s_Mul_14) = true := by decide +kernel
+
+theorem slots_v17_Mul : slotOK ("v17._Mul", Generated.Ctors.v17.f_mul, Generated.Schemas.v17.s_Mul_14) = true := by decide +kernel
 
 theorem conforms_v17_Multinomial : entryOK ("v17._Multinomial", Generated.Ctors.v17.f_multinomial, Generated.Schemas.v17.s_Multinomial_7) = true := by decide +kernel
 
+theorem slots_v17_Multinomial : slotOK ("v17._Multinomial", Generated.Ctors.v17.f_multinomial, Generated.Schemas.v17.s_Multinomial_7) = true := by decide +kernel
+
 theorem conforms_v17_Neg : entryOK ("v17._Neg", Generated.Ctors.v17.f_neg, Generated.Schemas.v17.s_Neg_13) = true := by decide +kernel
+
+theorem slots_v17_Neg : slotOK ("v17._Neg", Generated.Ctors.v17.f_neg, Generated.Schemas.v17.s_Neg_13) = true := by decide +kernel
 
 theorem conforms_v17_NegativeLogLikelihoodLoss : entryOK ("v17._NegativeLogLikelihoodLoss", Generated.Ctors.v17.f_negative_log_likelihood_loss, Generated.Schemas.v17.s_NegativeLogLikelihoodLoss_13) = true := by decide +kernel
 
+theorem slots_v17_NegativeLogLikelihoodLoss : slotOK ("v17._NegativeLogLikelihoodLoss", Generated.Ctors.v17.f_negative_log_likelihood_loss, Generated.Schemas.v17.s_NegativeLogLikelihoodLoss_13) = true := by decide +kernel
+
 theorem conforms_v17_NonMaxSuppression : entryOK ("v17._NonMaxSuppression", Generated.Ctors.v17.f_non_max_suppression, Generated.Schemas.v17.s_NonMaxSuppression_11) = true := by decide +kernel
+
+theorem slots_v17_NonMaxSuppression : slotOK ("v17._NonMaxSuppression", Generated.Ctors.v17.f_non_max_suppression, Generated.Schemas.v17.s_NonMaxSuppression_11) = true := by decide +kernel
 
 theorem conforms_v17_NonZero : entryOK ("v17._NonZero", Generated.Ctors.v17.f_non_zero, Generated.Schemas.v17.s_NonZero_13) = true := by decide +kernel
 
+theorem slots_v17_NonZero : slotOK ("v17._NonZero", Generated.Ctors.v17.f_non_zero, Generated.Schemas.v17.s_NonZero_13) = true := by decide +kernel
+
 theorem conforms_v17_Not : entryOK ("v17._Not", Generated.Ctors.v17.f_not_, Generated.Schemas.v17.s_Not_1) = true := by decide +kernel
+
+theorem slots_v17_Not : slotOK ("v17._Not", Generated.Ctors.v17.f_not_, Generated.Schemas.v17.s_Not_1) = true := by decide +kernel
 
 theorem conforms_v17_OneHot : entryOK ("v17._OneHot", Generated.Ctors.v17.f_one_hot, Generated.Schemas.v17.s_OneHot_11) = true := by decide +kernel
 
+theorem slots_v17_OneHot : slotOK ("v17._OneHot", Generated.Ctors.v17.f_one_hot, Generated.Schemas.v17.s_OneHot_11) = true := by decide +kernel
+
 theorem conforms_v17_Optional : entryOK ("v17._Optional", Generated.Ctors.v17.f_optional, Generated.Schemas.v17.s_Optional_15) = true := by decide +kernel
+
+theorem slots_v17_Optional : slotOK ("v17._Optional", Generated.Ctors.v17.f_optional, Generated.Schemas.v17.s_Optional_15) = true := by decide +kernel
 
 theorem conforms_v17_OptionalGetElement : entryOK ("v17._OptionalGetElement", Generated.Ctors.v17.f_optional_get_element, Generated.Schemas.v17.s_OptionalGetElement_15) = true := by decide +kernel
 
+theorem slots_v17_OptionalGetElement : slotOK ("v17._OptionalGetElement", Generated.Ctors.v17.f_optional_get_element, Generated.Schemas.v17.s_OptionalGetElement_15) = true := by decide +kernel
+
 theorem conforms_v17_OptionalHasElement : entryOK ("v17._OptionalHasElement", Generated.Ctors.v17.f_optional_has_element, Generated.Schemas.v17.s_OptionalHasElement_15) = true := by decide +kernel
+
+theorem slots_v17_OptionalHasElement : slotOK ("v17._OptionalHasElement", Generated.Ctors.v17.f_optional_has_element, Generated.Schemas.v17.s_OptionalHasElement_15) = true := by decide +kernel
 
 theorem conforms_v17_Or : entryOK ("v17._Or", Generated.Ctors.v17.f_or_, Generated.Schemas.v17.s_Or_7) = true := by decide +kernel
 
+theorem slots_v17_Or : slotOK ("v17._Or", Generated.Ctors.v17.f_or_, Generated.Schemas.v17.s_Or_7) = true := by decide +kernel
+
 theorem conforms_v17_PRelu : entryOK ("v17._PRelu", Generated.Ctors.v17.f_prelu, Generated.Schemas.v17.s_PRelu_16) = true := by decide +kernel
+
+theorem slots_v17_PRelu : slotOK ("v17._PRelu", Generated.Ctors.v17.f_prelu, Generated.Schemas.v17.s_PRelu_16) = true := by decide +kernel
 
 theorem conforms_v17_Pad : entryOK ("v17._Pad", Generated.Ctors.v17.f_pad, Generated.Schemas.v17.s_Pad_13) = true := by decide +kernel
 
+theorem slots_v17_Pad : slotOK ("v17._Pad", Generated.Ctors.v17.f_pad, Generated.Schemas.v17.s_Pad_13) = true := by decide +kernel
+
 theorem conforms_v17_Pow : entryOK ("v17._Pow", Generated.Ctors.v17.f_pow, Generated.Schemas.v17.s_Pow_15) = true := by decide +kernel
+
+theorem slots_v17_Pow : slotOK ("v17._Pow", Generated.Ctors.v17.f_pow, Generated.Schemas.v17.s_Pow_15) = true := by decide +kernel
 
 theorem conforms_v17_QLinearConv : entryOK ("v17._QLinearConv", Generated.Ctors.v17.f_qlinear_conv, Generated.Schemas.v17.s_QLinearConv_10) = true := by decide +kernel
 
+theorem slots_v17_QLinearConv : slotOK ("v17._QLinearConv", Generated.Ctors.v17.f_qlinear_conv, Generated.Schemas.v17.s_QLinearConv_10) = true := by decide +kernel
+
 theorem conforms_v17_QLinearMatMul : entryOK ("v17._QLinearMatMul", Generated.Ctors.v17.f_qlinear_matmul, Generated.Schemas.v17.s_QLinearMatMul_10) = true := by decide +kernel
+
+theorem slots_v17_QLinearMatMul : slotOK ("v17._QLinearMatMul", Generated.Ctors.v17.f_qlinear_matmul, Generated.Schemas.v17.s_QLinearMatMul_10) = true := by decide +kernel
 
 theorem conforms_v17_QuantizeLinear : entryOK ("v17._QuantizeLinear", Generated.Ctors.v17.f_quantize_linear, Generated.Schemas.v17.s_QuantizeLinear_13) = true := by decide +kernel
 
+theorem slots_v17_QuantizeLinear : slotOK ("v17._QuantizeLinear", Generated.Ctors.v17.f_quantize_linear, Generated.Schemas.v17.s_QuantizeLinear_13) = true := by decide +kernel
+
 theorem conforms_v17_RNN : entryOK ("v17._RNN", Generated.Ctors.v17.f_rnn, Generated.Schemas.v17.s_RNN_14) = true := by decide +kernel
+
+theorem slots_v17_RNN : slotOK ("v17._RNN", Generated.Ctors.v17.f_rnn, Generated.Schemas.v17.s_RNN_14) = true := by decide +kernel
 
 theorem conforms_v17_RandomNormal : entryOK ("v17._RandomNormal", Generated.Ctors.v17.f_random_normal, Generated.Schemas.v17.s_RandomNormal_1) = true := by decide +kernel
 
+theorem slots_v17_RandomNormal : slotOK ("v17._RandomNormal", Generated.Ctors.v17.f_random_normal, Generated.Schemas.v17.s_RandomNormal_1) = true := by decide +kernel
+
 theorem conforms_v17_RandomNormalLike : entryOK ("v17._RandomNormalLike", Generated.Ctors.v17.f_random_normal_like, Generated.Schemas.v17.s_RandomNormalLike_1) = true := by decide +kernel
+
+theorem slots_v17_RandomNormalLike : slotOK ("v17._RandomNormalLike", Generated.Ctors.v17.f_random_normal_like, Generated.Schemas.v17.s_RandomNormalLike_1) = true := by decide +kernel
 
 theorem conforms_v17_RandomUniform : entryOK ("v17._RandomUniform", Generated.Ctors.v17.f_random_uniform, Generated.Schemas.v17.s_RandomUniform_1) = true := by decide +kernel
 
+theorem slots_v17_RandomUniform : slotOK ("v17._RandomUniform", Generated.Ctors.v17.f_random_uniform, Generated.Schemas.v17.s_RandomUniform_1) = true := by decide +kernel
+
 theorem conforms_v17_RandomUniformLike : entryOK ("v17._RandomUniformLike", Generated.Ctors.v17.f_random_uniform_like, Generated.Schemas.v17.s_RandomUniformLike_1) = true := by decide +kernel
+
+theorem slots_v17_RandomUniformLike : slotOK ("v17._RandomUniformLike", Generated.Ctors.v17.f_random_uniform_like, Generated.Schemas.v17.s_RandomUniformLike_1) = true := by decide +kernel
 
 theorem conforms_v17_Range : entryOK ("v17._Range", Generated.Ctors.v17.f_range, Generated.Schemas.v17.s_Range_11) = true := by decide +kernel
 
+theorem slots_v17_Range : slotOK ("v17._Range", Generated.Ctors.v17.f_range, Generated.Schemas.v17.s_Range_11) = true := by decide +kernel
+
 theorem conforms_v17_Reciprocal : entryOK ("v17._Reciprocal", Generated.Ctors.v17.f_reciprocal, Generated.Schemas.v17.s_Reciprocal_13) = true := by decide +kernel
+
+theorem slots_v17_Reciprocal : slotOK ("v17._Reciprocal", Generated.Ctors.v17.f_reciprocal, Generated.Schemas.v17.s_Reciprocal_13) = true := by decide +kernel
 
 theorem conforms_v17_ReduceL1 : entryOK ("v17._ReduceL1", Generated.Ctors.v17.f_reduce_l1, Generated.Schemas.v17.s_ReduceL1_13) = true := by decide +kernel
 
+theorem slots_v17_ReduceL1 : slotOK ("v17._ReduceL1", Generated.Ctors.v17.f_reduce_l1, Generated.Schemas.v17.s_ReduceL1_13) = true := by decide +kernel
+
 theorem conforms_v17_ReduceL2 : entryOK ("v17._ReduceL2", Generated.Ctors.v17.f_reduce_l2, Generated.Schemas.v17.s_ReduceL2_13) = true := by decide +kernel
+
+theorem slots_v17_ReduceL2 : slotOK ("v17._ReduceL2", Generated.Ctors.v17.f_reduce_l2, Generated.Schemas.v17.s_ReduceL2_13) = true := by decide +kernel
 
 theorem conforms_v17_ReduceLogSum : entryOK ("v17._ReduceLogSum", Generated.Ctors.v17.f_reduce_log_sum, Generated.Schemas.v17.s_ReduceLogSum_13) = true := by decide +kernel
 
+theorem slots_v17_ReduceLogSum : slotOK ("v17._ReduceLogSum", Generated.Ctors.v17.f_reduce_log_sum, Generated.Schemas.v17.s_ReduceLogSum_13) = true := by decide +kernel
+
 theorem conforms_v17_ReduceLogSumExp : entryOK ("v17._ReduceLogSumExp", Generated.Ctors.v17.f_reduce_log_sum_exp, Generated.Schemas.v17.s_ReduceLogSumExp_13) = true := by decide +kernel
+
+theorem slots_v17_ReduceLogSumExp : slotOK ("v17._ReduceLogSumExp", Generated.Ctors.v17.f_reduce_log_sum_exp, Generated.Schemas.v17.s_ReduceLogSumExp_13) = true := by decide +kernel
 
 theorem conforms_v17_ReduceMax : entryOK ("v17._ReduceMax", Generated.Ctors.v17.f_reduce_max, Generated.Schemas.v17.s_ReduceMax_13) = true := by decide +kernel
 
+theorem slots_v17_ReduceMax : slotOK ("v17._ReduceMax", Generated.Ctors.v17.f_reduce_max, Generated.Schemas.v17.s_ReduceMax_13) = true := by decide +kernel
+
 theorem conforms_v17_ReduceMean : entryOK ("v17._ReduceMean", Generated.Ctors.v17.f_reduce_mean, Generated.Schemas.v17.s_ReduceMean_13) = true := by decide +kernel
+
+theorem slots_v17_ReduceMean : slotOK ("v17._ReduceMean", Generated.Ctors.v17.f_reduce_mean, Generated.Schemas.v17.s_ReduceMean_13) = true := by decide +kernel
 
 theorem conforms_v17_ReduceMin : entryOK ("v17._ReduceMin", Generated.Ctors.v17.f_reduce_min, Generated.Schemas.v17.s_ReduceMin_13) = true := by decide +kernel
 
+theorem slots_v17_ReduceMin : slotOK ("v17._ReduceMin", Generated.Ctors.v17.f_reduce_min, Generated.Schemas.v17.s_ReduceMin_13) = true := by decide +kernel
+
 theorem conforms_v17_ReduceProd : entryOK ("v17._ReduceProd", Generated.Ctors.v17.f_reduce_prod, Generated.Schemas.v17.s_ReduceProd_13) = true := by decide +kernel
+
+theorem slots_v17_ReduceProd : slotOK ("v17._ReduceProd", Generated.Ctors.v17.f_reduce_prod, Generated.Schemas.v17.s_ReduceProd_13) = true := by decide +kernel
 
 theorem conforms_v17_ReduceSum : entryOK ("v17._ReduceSum", Generated.Ctors.v17.f_reduce_sum, Generated.Schemas.v17.s_ReduceSum_13) = true := by decide +kernel
 
+theorem slots_v17_ReduceSum : slotOK ("v17._ReduceSum", Generated.Ctors.v17.f_reduce_sum, Generated.Schemas.v17.s_ReduceSum_13) = true := by decide +kernel
+
 theorem conforms_v17_ReduceSumSquare : entryOK ("v17._ReduceSumSquare", Generated.Ctors.v17.f_reduce_sum_square, Generated.Schemas.v17.s_ReduceSumSquare_13) = true := by decide +kernel
+
+theorem slots_v17_ReduceSumSquare : slotOK ("v17._ReduceSumSquare", Generated.Ctors.v17.f_reduce_sum_square, Generated.Schemas.v17.s_ReduceSumSquare_13) = true := by decide +kernel
 
 theorem conforms_v17_Relu : entryOK ("v17._Relu", Generated.Ctors.v17.f_relu, Generated.Schemas.v17.s_Relu_14) = true := by decide +kernel
 
+theorem slots_v17_Relu : slotOK ("v17._Relu", Generated.Ctors.v17.f_relu, Generated.Schemas.v17.s_Relu_14) = true := by decide +kernel
+
 theorem conforms_v17_Reshape : entryOK ("v17._Reshape", Generated.Ctors.v17.f_reshape, Generated.Schemas.v17.s_Reshape_14) = true := by decide +kernel
+
+theorem slots_v17_Reshape : slotOK ("v17._Reshape", Generated.Ctors.v17.f_reshape, Generated.Schemas.v17.s_Reshape_14) = true := by decide +kernel
 
 theorem conforms_v17_Resize : entryOK ("v17._Resize", Generated.Ctors.v17.f_resize, Generated.Schemas.v17.s_Resize_13) = true := by decide +kernel
 
+theorem slots_v17_Resize : slotOK ("v17._Resize", Generated.Ctors.v17.f_resize, Generated.Schemas.v17.s_Resize_13) = true := by decide +kernel
+
 theorem conforms_v17_ReverseSequence : entryOK ("v17._ReverseSequence", Generated.Ctors.v17.f_reverse_sequence, Generated.Schemas.v17.s_ReverseSequence_10) = true := by decide +kernel
+
+theorem slots_v17_ReverseSequence : slotOK ("v17._ReverseSequence", Generated.Ctors.v17.f_reverse_sequence, Generated.Schemas.v17.s_ReverseSequence_10) = true := by decide +kernel
 
 theorem conforms_v17_RoiAlign : entryOK ("v17._RoiAlign", Generated.Ctors.v17.f_roi_align, Generated.Schemas.v17.s_RoiAlign_16) = true := by decide +kernel
 
+theorem slots_v17_RoiAlign : slotOK ("v17._RoiAlign", Generated.Ctors.v17.f_roi_align, Generated.Schemas.v17.s_RoiAlign_16) = true := by decide +kernel
+
 theorem conforms_v17_Round : entryOK ("v17._Round", Generated.Ctors.v17.f_round, Generated.Schemas.v17.s_Round_11) = true := by decide +kernel
+
+theorem slots_v17_Round : slotOK ("v17._Round", Generated.Ctors.v17.f_round, Generated.Schemas.v17.s_Round_11) = true := by decide +kernel
 
 theorem conforms_v17_STFT : entryOK ("v17._STFT", Generated.Ctors.v17.f_stft, Generated.Schemas.v17.s_STFT_17) = true := by decide +kernel
 
+theorem slots_v17_STFT : slotOK ("v17._STFT", Generated.Ctors.v17.f_stft, Generated.Schemas.v17.s_STFT_17) = true := by decide +kernel
+
 theorem conforms_v17_Scan : entryOK ("v17._Scan", Generated.Ctors.v17.f_scan, Generated.Schemas.v17.s_Scan_16) = true := by decide +kernel
+
+theorem slots_v17_Scan : slotOK ("v17._Scan", Generated.Ctors.v17.f_scan, Generated.Schemas.v17.s_Scan_16) = true := by decide +kernel
 
 theorem conforms_v17_ScatterElements : entryOK ("v17._ScatterElements", Generated.Ctors.v17.f_scatter_elements, Generated.Schemas.v17.s_ScatterElements_16) = true := by decide +kernel
 
+theorem slots_v17_ScatterElements : slotOK ("v17._ScatterElements", Generated.Ctors.v17.f_scatter_elements, Generated.Schemas.v17.s_ScatterElements_16) = true := by decide +kernel
+
 theorem conforms_v17_ScatterND : entryOK ("v17._ScatterND", Generated.Ctors.v17.f_scatter_nd, Generated.Schemas.v17.s_ScatterND_16) = true := by decide +kernel
+
+theorem slots_v17_ScatterND : slotOK ("v17._ScatterND", Generated.Ctors.v17.f_scatter_nd, Generated.Schemas.v17.s_ScatterND_16) = true := by decide +kernel
 
 theorem conforms_v17_Selu : entryOK ("v17._Selu", Generated.Ctors.v17.f_selu, Generated.Schemas.v17.s_Selu_6) = true := by decide +kernel
 
+theorem slots_v17_Selu : slotOK ("v17._Selu", Generated.Ctors.v17.f_selu, Generated.Schemas.v17.s_Selu_6) = true := by decide +kernel
+
 theorem conforms_v17_SequenceAt : entryOK ("v17._SequenceAt", Generated.Ctors.v17.f_sequence_at, Generated.Schemas.v17.s_SequenceAt_11) = true := by decide +kernel
+
+theorem slots_v17_SequenceAt : slotOK ("v17._SequenceAt", Generated.Ctors.v17.f_sequence_at, Generated.Schemas.v17.s_SequenceAt_11) = true := by decide +kernel
 
 theorem conforms_v17_SequenceConstruct : entryOK ("v17._SequenceConstruct", Generated.Ctors.v17.f_sequence_construct, Generated.Schemas.v17.s_SequenceConstruct_11) = true := by decide +kernel
 
+theorem slots_v17_SequenceConstruct : slotOK ("v17._SequenceConstruct", Generated.Ctors.v17.f_sequence_construct, Generated.Schemas.v17.s_SequenceConstruct_11) = true := by decide +kernel
+
 theorem conforms_v17_SequenceEmpty : entryOK ("v17._SequenceEmpty", Generated.Ctors.v17.f_sequence_empty, Generated.Schemas.v17.s_SequenceEmpty_11) = true := by decide +kernel
+
+theorem slots_v17_SequenceEmpty : slotOK ("v17._SequenceEmpty", Generated.Ctors.v17.f_sequence_empty, Generated.Schemas.v17.s_SequenceEmpty_11) = true := by decide +kernel
 
 theorem conforms_v17_SequenceErase : entryOK ("v17._SequenceErase", Generated.Ctors.v17.f_sequence_erase, Generated.Schemas.v17.s_SequenceErase_11) = true := by decide +kernel
 
+theorem slots_v17_SequenceErase : slotOK ("v17._SequenceErase", Generated.Ctors.v17.f_sequence_erase, Generated.Schemas.v17.s_SequenceErase_11) = true := by decide +kernel
+
 theorem conforms_v17_SequenceInsert : entryOK ("v17._SequenceInsert", Generated.Ctors.v17.f_sequence_insert, Generated.Schemas.v17.s_SequenceInsert_11) = true := by decide +kernel
+
+theorem slots_v17_SequenceInsert : slotOK ("v17._SequenceInsert", Generated.Ctors.v17.f_sequence_insert, Generated.Schemas.v17.s_SequenceInsert_11) = true := by decide +kernel
 
 theorem conforms_v17_SequenceLength : entryOK ("v17._SequenceLength", Generated.Ctors.v17.f_sequence_length, Generated.Schemas.v17.s_SequenceLength_11) = true := by decide +kernel
 
+theorem slots_v17_SequenceLength : slotOK ("v17._SequenceLength", Generated.Ctors.v17.f_sequence_length, Generated.Schemas.v17.s_SequenceLength_11) = true := by decide +kernel
+
 theorem conforms_v17_SequenceMap : entryOK ("v17._SequenceMap", Generated.Ctors.v17.f_sequence_map, Generated.Schemas.v17.s_SequenceMap_17) = true := by decide +kernel
+
+theorem slots_v17_SequenceMap : slotOK ("v17._SequenceMap", Generated.Ctors.v17.f_sequence_map, Generated.Schemas.v17.s_SequenceMap_17) = true := by decide +kernel
 
 theorem conforms_v17_Shape : entryOK ("v17._Shape", Generated.Ctors.v17.f_shape, Generated.Schemas.v17.s_Shape_15) = true := by decide +kernel
 
+theorem slots_v17_Shape : slotOK ("v17._Shape", Generated.Ctors.v17.f_shape, Generated.Schemas.v17.s_Shape_15) = true := by decide +kernel
+
 theorem conforms_v17_Shrink : entryOK ("v17._Shrink", Generated.Ctors.v17.f_shrink, Generated.Schemas.v17.s_Shrink_9) = true := by decide +kernel
+
+theorem slots_v17_Shrink : slotOK ("v17._Shrink", Generated.Ctors.v17.f_shrink, Generated.Schemas.v17.s_Shrink_9) = true := by decide +kernel
 
 theorem conforms_v17_Sigmoid : entryOK ("v17._Sigmoid", Generated.Ctors.v17.f_sigmoid, Generated.Schemas.v17.s_Sigmoid_13) = true := by decide +kernel
 
+theorem slots_v17_Sigmoid : slotOK ("v17._Sigmoid", Generated.Ctors.v17.f_sigmoid, Generated.Schemas.v17.s_Sigmoid_13) = true := by decide +kernel
+
 theorem conforms_v17_Sign : entryOK ("v17._Sign", Generated.Ctors.v17.f_sign, Generated.Schemas.v17.s_Sign_13) = true := by decide +kernel
+
+theorem slots_v17_Sign : slotOK ("v17._Sign", Generated.Ctors.v17.f_sign, Generated.Schemas.v17.s_Sign_13) = true := by decide +kernel
 
 theorem conforms_v17_Sin : entryOK ("v17._Sin", Generated.Ctors.v17.f_sin, Generated.Schemas.v17.s_Sin_7) = true := by decide +kernel
 
+theorem slots_v17_Sin : slotOK ("v17._Sin", Generated.Ctors.v17.f_sin, Generated.Schemas.v17.s_Sin_7) = true := by decide +kernel
+
 theorem conforms_v17_Sinh : entryOK ("v17._Sinh", Generated.Ctors.v17.f_sinh, Generated.Schemas.v17.s_Sinh_9) = true := by decide +kernel
+
+theorem slots_v17_Sinh : slotOK ("v17._Sinh", Generated.Ctors.v17.f_sinh, Generated.Schemas.v17.s_Sinh_9) = true := by decide +kernel
 
 theorem conforms_v17_Size : entryOK ("v17._Size", Generated.Ctors.v17.f_size, Generated.Schemas.v17.s_Size_13) = true := by decide +kernel
 
+theorem slots_v17_Size : slotOK ("v17._Size", Generated.Ctors.v17.f_size, Generated.Schemas.v17.s_Size_13) = true := by decide +kernel
+
 theorem conforms_v17_Slice : entryOK ("v17._Slice", Generated.Ctors.v17.f_slice, Generated.Schemas.v17.s_Slice_13) = true := by decide +kernel
+
+theorem slots_v17_Slice : slotOK ("v17._Slice", Generated.Ctors.v17.f_slice, Generated.Schemas.v17.s_Slice_13) = true := by decide +kernel
 
 theorem conforms_v17_Softmax : entryOK ("v17._Softmax", Generated.Ctors.v17.f_softmax, Generated.Schemas.v17.s_Softmax_13) = true := by decide +kernel
 
+theorem slots_v17_Softmax : slotOK ("v17._Softmax", Generated.Ctors.v17.f_softmax, Generated.Schemas.v17.s_Softmax_13) = true := by decide +kernel
+
 theorem conforms_v17_SoftmaxCrossEntropyLoss : entryOK ("v17._SoftmaxCrossEntropyLoss", Generated.Ctors.v17.f_softmax_cross_entropy_loss, Generated.Schemas.v17.s_SoftmaxCrossEntropyLoss_13) = true := by decide +kernel
+
+theorem slots_v17_SoftmaxCrossEntropyLoss : slotOK ("v17._SoftmaxCrossEntropyLoss", Generated.Ctors.v17.f_softmax_cross_entropy_loss, Generated.Schemas.v17.s_SoftmaxCrossEntropyLoss_13) = true := by decide +kernel
 
 theorem conforms_v17_Softplus : entryOK ("v17._Softplus", Generated.Ctors.v17.f_softplus, Generated.Schemas.v17.s_Softplus_1) = true := by decide +kernel
 
+theorem slots_v17_Softplus : slotOK ("v17._Softplus", Generated.Ctors.v17.f_softplus, Generated.Schemas.v17.s_Softplus_1) = true := by decide +kernel
+
 theorem conforms_v17_Softsign : entryOK ("v17._Softsign", Generated.Ctors.v17.f_softsign, Generated.Schemas.v17.s_Softsign_1) = true := by decide +kernel
+
+theorem slots_v17_Softsign : slotOK ("v17._Softsign", Generated.Ctors.v17.f_softsign, Generated.Schemas.v17.s_Softsign_1) = true := by decide +kernel
 
 theorem conforms_v17_SpaceToDepth : entryOK ("v17._SpaceToDepth", Generated.Ctors.v17.f_space_to_depth, Generated.Schemas.v17.s_SpaceToDepth_13) = true := by decide +kernel
 
+theorem slots_v17_SpaceToDepth : slotOK ("v17._SpaceToDepth", Generated.Ctors.v17.f_space_to_depth, Generated.Schemas.v17.s_SpaceToDepth_13) = true := by decide +kernel
+
 theorem conforms_v17_Split : entryOK ("v17._Split", Generated.Ctors.v17.f_split, Generated.Schemas.v17.s_Split_13) = true := by decide +kernel
+
+theorem slots_v17_Split : slotOK ("v17._Split", Generated.Ctors.v17.f_split, Generated.Schemas.v17.s_Split_13) = true := by decide +kernel
 
 theorem conforms_v17_SplitToSequence : entryOK ("v17._SplitToSequence", Generated.Ctors.v17.f_split_to_sequence, Generated.Schemas.v17.s_SplitToSequence_11) = true := by decide +kernel
 
+theorem slots_v17_SplitToSequence : slotOK ("v17._SplitToSequence", Generated.Ctors.v17.f_split_to_sequence, Generated.Schemas.v17.s_SplitToSequence_11) = true := by decide +kernel
+
 theorem conforms_v17_Sqrt : entryOK ("v17._Sqrt", Generated.Ctors.v17.f_sqrt, Generated.Schemas.v17.s_Sqrt_13) = true := by decide +kernel
+
+theorem slots_v17_Sqrt : slotOK ("v17._Sqrt", Generated.Ctors.v17.f_sqrt, Generated.Schemas.v17.s_Sqrt_13) = true := by decide +kernel
 
 theorem conforms_v17_Squeeze : entryOK ("v17._Squeeze", Generated.Ctors.v17.f_squeeze, Generated.Schemas.v17.s_Squeeze_13) = true := by decide +kernel
 
+theorem slots_v17_Squeeze : slotOK ("v17._Squeeze", Generated.Ctors.v17.f_squeeze, Generated.Schemas.v17.s_Squeeze_13) = true := by decide +kernel
+
 theorem conforms_v17_StringNormalizer : entryOK ("v17._StringNormalizer", Generated.Ctors.v17.f_string_normalizer, Generated.Schemas.v17.s_StringNormalizer_10) = true := by decide +kernel
+
+theorem slots_v17_StringNormalizer : slotOK ("v17._StringNormalizer", Generated.Ctors.v17.f_string_normalizer, Generated.Schemas.v17.s_StringNormalizer_10) = true := by decide +kernel
 
 theorem conforms_v17_Sub : entryOK ("v17._Sub", Generated.Ctors.v17.f_sub, Generated.Schemas.v17.s_Sub_14) = true := by decide +kernel
 
+theorem slots_v17_Sub : slotOK ("v17._Sub", Generated.Ctors.v17.f_sub, Generated.Schemas.v17.s_Sub_14) = true := by decide +kernel
+
 theorem conforms_v17_Sum : entryOK ("v17._Sum", Generated.Ctors.v17.f_sum, Generated.Schemas.v17.s_Sum_13) = true := by decide +kernel
+
+theorem slots_v17_Sum : slotOK ("v17._Sum", Generated.Ctors.v17.f_sum, Generated.Schemas.v17.s_Sum_13) = true := by decide +kernel
 
 theorem conforms_v17_Tan : entryOK ("v17._Tan", Generated.Ctors.v17.f_tan, Generated.Schemas.v17.s_Tan_7) = true := by decide +kernel
 
+theorem slots_v17_Tan : slotOK ("v17._Tan", Generated.Ctors.v17.f_tan, Generated.Schemas.v17.s_Tan_7) = true := by decide +kernel
+
 theorem conforms_v17_Tanh : entryOK ("v17._Tanh", Generated.Ctors.v17.f_tanh, Generated.Schemas.v17.s_Tanh_13) = true := by decide +kernel
+
+theorem slots_v17_Tanh : slotOK ("v17._Tanh", Generated.Ctors.v17.f_tanh, Generated.Schemas.v17.s_Tanh_13) = true := by decide +kernel
 
 theorem conforms_v17_TfIdfVectorizer : entryOK ("v17._TfIdfVectorizer", Generated.Ctors.v17.f_tf_idf_vectorizer, Generated.Schemas.v17.s_TfIdfVectorizer_9) = true := by decide +kernel
 
+theorem slots_v17_TfIdfVectorizer : slotOK ("v17._TfIdfVectorizer", Generated.Ctors.v17.f_tf_idf_vectorizer, Generated.Schemas.v17.s_TfIdfVectorizer_9) = true := by decide +kernel
+
 theorem conforms_v17_ThresholdedRelu : entryOK ("v17._ThresholdedRelu", Generated.Ctors.v17.f_thresholded_relu, Generated.Schemas.v17.s_ThresholdedRelu_10) = true := by decide +kernel
+
+theorem slots_v17_ThresholdedRelu : slotOK ("v17._ThresholdedRelu", Generated.Ctors.v17.f_thresholded_relu, Generated.Schemas.v17.s_ThresholdedRelu_10) = true := by decide +kernel
 
 theorem conforms_v17_Tile : entryOK ("v17._Tile", Generated.Ctors.v17.f_tile, Generated.Schemas.v17.s_Tile_13) = true := by decide +kernel
 
+theorem slots_v17_Tile : slotOK ("v17._Tile", Generated.Ctors.v17.f_tile, Generated.Schemas.v17.s_Tile_13) = true := by decide +kernel
+
 theorem conforms_v17_TopK : entryOK ("v17._TopK", Generated.Ctors.v17.f_top_k, Generated.Schemas.v17.s_TopK_11) = true := by decide +kernel
+
+theorem slots_v17_TopK : slotOK ("v17._TopK", Generated.Ctors.v17.f_top_k, Generated.Schemas.v17.s_TopK_11) = true := by decide +kernel
 
 theorem conforms_v17_Transpose : entryOK ("v17._Transpose", Generated.Ctors.v17.f_transpose, Generated.Schemas.v17.s_Transpose_13) = true := by decide +kernel
 
+theorem slots_v17_Transpose : slotOK ("v17._Transpose", Generated.Ctors.v17.f_transpose, Generated.Schemas.v17.s_Transpose_13) = true := by decide +kernel
+
 theorem conforms_v17_Trilu : entryOK ("v17._Trilu", Generated.Ctors.v17.f_trilu, Generated.Schemas.v17.s_Trilu_14) = true := by decide +kernel
+
+theorem slots_v17_Trilu : slotOK ("v17._Trilu", Generated.Ctors.v17.f_trilu, Generated.Schemas.v17.s_Trilu_14) = true := by decide +kernel
 
 theorem conforms_v17_Unique : entryOK ("v17._Unique", Generated.Ctors.v17.f_unique, Generated.Schemas.v17.s_Unique_11) = true := by decide +kernel
 
+theorem slots_v17_Unique : slotOK ("v17._Unique", Generated.Ctors.v17.f_unique, Generated.Schemas.v17.s_Unique_11) = true := by decide +kernel
+
 theorem conforms_v17_Unsqueeze : entryOK ("v17._Unsqueeze", Generated.Ctors.v17.f_unsqueeze, Generated.Schemas.v17.s_Unsqueeze_13) = true := by decide +kernel
+
+theorem slots_v17_Unsqueeze : slotOK ("v17._Unsqueeze", Generated.Ctors.v17.f_unsqueeze, Generated.Schemas.v17.s_Unsqueeze_13) = true := by decide +kernel
 
 theorem conforms_v17_Where : entryOK ("v17._Where", Generated.Ctors.v17.f_where, Generated.Schemas.v17.s_Where_16) = true := by decide +kernel
 
+theorem slots_v17_Where : slotOK ("v17._Where", Generated.Ctors.v17.f_where, Generated.Schemas.v17.s_Where_16) = true := by decide +kernel
+
 theorem conforms_v17_Xor : entryOK ("v17._Xor", Generated.Ctors.v17.f_xor, Generated.Schemas.v17.s_Xor_7) = true := by decide +kernel
+
+theorem slots_v17_Xor : slotOK ("v17._Xor", Generated.Ctors.v17.f_xor, Generated.Schemas.v17.s_Xor_7) = true := by decide +kernel
 
 /-- every operator/module pair of this module without a listed deviation -/
 def table : List Entry :=
@@ -716,6 +1068,368 @@ theorem table_all : table.all entryOK = true :=
 
 theorem table_conforms : ∀ e ∈ table, entryOK e = true :=
   fun e he => List.all_eq_true.mp table_all e he
+
+/-- every operator/module pair of this module (deviating ones included: deviations concern attributes) -/
+def allEntries : List Entry :=
+  [
+   ("v17._Abs", Generated.Ctors.v17.f_abs, Generated.Schemas.v17.s_Abs_13), 
+   ("v17._Acos", Generated.Ctors.v17.f_acos, Generated.Schemas.v17.s_Acos_7), 
+   ("v17._Acosh", Generated.Ctors.v17.f_acosh, Generated.Schemas.v17.s_Acosh_9), 
+   ("v17._Add", Generated.Ctors.v17.f_add, Generated.Schemas.v17.s_Add_14), 
+   ("v17._And", Generated.Ctors.v17.f_and_, Generated.Schemas.v17.s_And_7), 
+   ("v17._ArgMax", Generated.Ctors.v17.f_arg_max, Generated.Schemas.v17.s_ArgMax_13), 
+   ("v17._ArgMin", Generated.Ctors.v17.f_arg_min, Generated.Schemas.v17.s_ArgMin_13), 
+   ("v17._Asin", Generated.Ctors.v17.f_asin, Generated.Schemas.v17.s_Asin_7), 
+   ("v17._Asinh", Generated.Ctors.v17.f_asinh, Generated.Schemas.v17.s_Asinh_9), 
+   ("v17._Atan", Generated.Ctors.v17.f_atan, Generated.Schemas.v17.s_Atan_7), 
+   ("v17._Atanh", Generated.Ctors.v17.f_atanh, Generated.Schemas.v17.s_Atanh_9), 
+   ("v17._AveragePool", Generated.Ctors.v17.f_average_pool, Generated.Schemas.v17.s_AveragePool_11), 
+   ("v17._BatchNormalization", Generated.Ctors.v17.f_batch_normalization, Generated.Schemas.v17.s_BatchNormalization_15), 
+   ("v17._Bernoulli", Generated.Ctors.v17.f_bernoulli, Generated.Schemas.v17.s_Bernoulli_15), 
+   ("v17._BitShift", Generated.Ctors.v17.f_bit_shift, Generated.Schemas.v17.s_BitShift_11), 
+   ("v17._BlackmanWindow", Generated.Ctors.v17.f_blackman_window, Generated.Schemas.v17.s_BlackmanWindow_17), 
+   ("v17._Cast", Generated.Ctors.v17.f_cast, Generated.Schemas.v17.s_Cast_13), 
+   ("v17._CastLike", Generated.Ctors.v17.f_cast_like, Generated.Schemas.v17.s_CastLike_15), 
+   ("v17._Ceil", Generated.Ctors.v17.f_ceil, Generated.Schemas.v17.s_Ceil_13), 
+   ("v17._Celu", Generated.Ctors.v17.f_celu, Generated.Schemas.v17.s_Celu_12), 
+   ("v17._Clip", Generated.Ctors.v17.f_clip, Generated.Schemas.v17.s_Clip_13), 
+   ("v17._Compress", Generated.Ctors.v17.f_compress, Generated.Schemas.v17.s_Compress_11), 
+   ("v17._Concat", Generated.Ctors.v17.f_concat, Generated.Schemas.v17.s_Concat_13), 
+   ("v17._ConcatFromSequence", Generated.Ctors.v17.f_concat_from_sequence, Generated.Schemas.v17.s_ConcatFromSequence_11), 
+   ("v17._Constant", Generated.Ctors.v17.f_constant, Generated.Schemas.v17.s_Constant_13), 
+   ("v17._ConstantOfShape", Generated.Ctors.v17.f_constant_of_shape, Generated.Schemas.v17.s_ConstantOfShape_9), 
+   ("v17._Conv", Generated.Ctors.v17.f_conv, Generated.Schemas.v17.s_Conv_11), 
+   ("v17._ConvInteger", Generated.Ctors.v17.f_conv_integer, Generated.Schemas.v17.s_ConvInteger_10), 
+   ("v17._ConvTranspose", Generated.Ctors.v17.f_conv_transpose, Generated.Schemas.v17.s_ConvTranspose_11), 
+   ("v17._Cos", Generated.Ctors.v17.f_cos, Generated.Schemas.v17.s_Cos_7), 
+   ("v17._Cosh", Generated.Ctors.v17.f_cosh, Generated.Schemas.v17.s_Cosh_9), 
+   ("v17._CumSum", Generated.Ctors.v17.f_cumsum, Generated.Schemas.v17.s_CumSum_14), 
+   ("v17._DFT", Generated.Ctors.v17.f_dft, Generated.Schemas.v17.s_DFT_17), 
+   ("v17._DepthToSpace", Generated.Ctors.v17.f_depth_to_space, Generated.Schemas.v17.s_DepthToSpace_13), 
+   ("v17._DequantizeLinear", Generated.Ctors.v17.f_dequantize_linear, Generated.Schemas.v17.s_DequantizeLinear_13), 
+   ("v17._Det", Generated.Ctors.v17.f_det, Generated.Schemas.v17.s_Det_11), 
+   ("v17._Div", Generated.Ctors.v17.f_div, Generated.Schemas.v17.s_Div_14), 
+   ("v17._Dropout", Generated.Ctors.v17.f_dropout, Generated.Schemas.v17.s_Dropout_13), 
+   ("v17._DynamicQuantizeLinear", Generated.Ctors.v17.f_dynamic_quantize_linear, Generated.Schemas.v17.s_DynamicQuantizeLinear_11), 
+   ("v17._Einsum", Generated.Ctors.v17.f_einsum, Generated.Schemas.v17.s_Einsum_12), 
+   ("v17._Elu", Generated.Ctors.v17.f_elu, Generated.Schemas.v17.s_Elu_6), 
+   ("v17._Equal", Generated.Ctors.v17.f_equal, Generated.Schemas.v17.s_Equal_13), 
+   ("v17._Erf", Generated.Ctors.v17.f_erf, Generated.Schemas.v17.s_Erf_13), 
+   ("v17._Exp", Generated.Ctors.v17.f_exp, Generated.Schemas.v17.s_Exp_13), 
+   ("v17._Expand", Generated.Ctors.v17.f_expand, Generated.Schemas.v17.s_Expand_13), 
+   ("v17._EyeLike", Generated.Ctors.v17.f_eye_like, Generated.Schemas.v17.s_EyeLike_9), 
+   ("v17._Flatten", Generated.Ctors.v17.f_flatten, Generated.Schemas.v17.s_Flatten_13), 
+   ("v17._Floor", Generated.Ctors.v17.f_floor, Generated.Schemas.v17.s_Floor_13), 
+   ("v17._GRU", Generated.Ctors.v17.f_gru, Generated.Schemas.v17.s_GRU_14), 
+   ("v17._Gather", Generated.Ctors.v17.f_gather, Generated.Schemas.v17.s_Gather_13), 
+   ("v17._GatherElements", Generated.Ctors.v17.f_gather_elements, Generated.Schemas.v17.s_GatherElements_13), 
+   ("v17._GatherND", Generated.Ctors.v17.f_gather_nd, Generated.Schemas.v17.s_GatherND_13), 
+   ("v17._Gemm", Generated.Ctors.v17.f_gemm, Generated.Schemas.v17.s_Gemm_13), 
+   ("v17._GlobalAveragePool", Generated.Ctors.v17.f_global_average_pool, Generated.Schemas.v17.s_GlobalAveragePool_1), 
+   ("v17._GlobalLpPool", Generated.Ctors.v17.f_global_lp_pool, Generated.Schemas.v17.s_GlobalLpPool_2), 
+   ("v17._GlobalMaxPool", Generated.Ctors.v17.f_global_max_pool, Generated.Schemas.v17.s_GlobalMaxPool_1), 
+   ("v17._Greater", Generated.Ctors.v17.f_greater, Generated.Schemas.v17.s_Greater_13), 
+   ("v17._GreaterOrEqual", Generated.Ctors.v17.f_greater_or_equal, Generated.Schemas.v17.s_GreaterOrEqual_16), 
+   ("v17._GridSample", Generated.Ctors.v17.f_grid_sample, Generated.Schemas.v17.s_GridSample_16), 
+   ("v17._HammingWindow", Generated.Ctors.v17.f_hamming_window, Generated.Schemas.v17.s_HammingWindow_17), 
+   ("v17._HannWindow", Generated.Ctors.v17.f_hann_window, Generated.Schemas.v17.s_HannWindow_17), 
+   ("v17._HardSigmoid", Generated.Ctors.v17.f_hard_sigmoid, Generated.Schemas.v17.s_HardSigmoid_6), 
+   ("v17._HardSwish", Generated.Ctors.v17.f_hard_swish, Generated.Schemas.v17.s_HardSwish_14), 
+   ("v17._Hardmax", Generated.Ctors.v17.f_hardmax, Generated.Schemas.v17.s_Hardmax_13), 
+   ("v17._Identity", Generated.Ctors.v17.f_identity, Generated.Schemas.v17.s_Identity_16), 
+   ("v17._If", Generated.Ctors.v17.f_if_, Generated.Schemas.v17.s_If_16), 
+   ("v17._InstanceNormalization", Generated.Ctors.v17.f_instance_normalization, Generated.Schemas.v17.s_InstanceNormalization_6), 
+   ("v17._IsInf", Generated.Ctors.v17.f_isinf, Generated.Schemas.v17.s_IsInf_10), 
+   ("v17._IsNaN", Generated.Ctors.v17.f_isnan, Generated.Schemas.v17.s_IsNaN_13), 
+   ("v17._LRN", Generated.Ctors.v17.f_lrn, Generated.Schemas.v17.s_LRN_13), 
+   ("v17._LSTM", Generated.Ctors.v17.f_lstm, Generated.Schemas.v17.s_LSTM_14), 
+   ("v17._LayerNormalization", Generated.Ctors.v17.f_layer_normalization, Generated.Schemas.v17.s_LayerNormalization_17), 
+   ("v17._LeakyRelu", Generated.Ctors.v17.f_leaky_relu, Generated.Schemas.v17.s_LeakyRelu_16), 
+   ("v17._Less", Generated.Ctors.v17.f_less, Generated.Schemas.v17.s_Less_13), 
+   ("v17._LessOrEqual", Generated.Ctors.v17.f_less_or_equal, Generated.Schemas.v17.s_LessOrEqual_16), 
+   ("v17._Log", Generated.Ctors.v17.f_log, Generated.Schemas.v17.s_Log_13), 
+   ("v17._LogSoftmax", Generated.Ctors.v17.f_log_softmax, Generated.Schemas.v17.s_LogSoftmax_13), 
+   ("v17._Loop", Generated.Ctors.v17.f_loop, Generated.Schemas.v17.s_Loop_16), 
+   ("v17._LpNormalization", Generated.Ctors.v17.f_lp_normalization, Generated.Schemas.v17.s_LpNormalization_1), 
+   ("v17._LpPool", Generated.Ctors.v17.f_lp_pool, Generated.Schemas.v17.s_LpPool_11), 
+   ("v17._MatMul", Generated.Ctors.v17.f_matmul, Generated.Schemas.v17.s_MatMul_13), 
+   ("v17._MatMulInteger", Generated.Ctors.v17.f_matmul_integer, Generated.Schemas.v17.s_MatMulInteger_10), 
+   ("v17._Max", Generated.Ctors.v17.f_max, Generated.Schemas.v17.s_Max_13), 
+   ("v17._MaxPool", Generated.Ctors.v17.f_max_pool, Generated.Schemas.v17.s_MaxPool_12), 
+   ("v17._MaxRoiPool", Generated.Ctors.v17.f_max_roi_pool, Generated.Schemas.v17.s_MaxRoiPool_1), 
+   ("v17._MaxUnpool", Generated.Ctors.v17.f_max_unpool, Generated.Schemas.v17.s_MaxUnpool_11), 
+   ("v17._Mean", Generated.Ctors.v17.f_mean, Generated.Schemas.v17.s_Mean_13), 
+   ("v17._MeanVarianceNormalization", Generated.Ctors.v17.f_mean_variance_normalization, Generated.Schemas.v17.s_MeanVarianceNormalization_13), 
+   ("v17._MelWeightMatrix", Generated.Ctors.v17.f_mel_weight_matrix, Generated.Schemas.v17.s_MelWeightMatrix_17), 
+   ("v17._Min", Generated.Ctors.v17.f_min, Generated.Schemas.v17.s_Min_13), 
+   ("v17._Mod", Generated.Ctors.v17.f_mod, Generated.Schemas.v17.s_Mod_13), 
+   ("v17._Mul", Generated.Ctors.v17.f_mul, Generated.Schemas.v17.s_Mul_14), 
+   ("v17._Multinomial", Generated.Ctors.v17.f_multinomial, Generated.Schemas.v17.s_Multinomial_7), 
+   ("v17._Neg", Generated.Ctors.v17.f_neg, Generated.Schemas.v17.s_Neg_13), 
+   ("v17._NegativeLogLikelihoodLoss", Generated.Ctors.v17.f_negative_log_likelihood_loss, Generated.Schemas.v17.s_NegativeLogLikelihoodLoss_13), 
+   ("v17._NonMaxSuppression", Generated.Ctors.v17.f_non_max_suppression, Generated.Schemas.v17.s_NonMaxSuppression_11), 
+   ("v17._NonZero", Generated.Ctors.v17.f_non_zero, Generated.Schemas.v17.s_NonZero_13), 
+   ("v17._Not", Generated.Ctors.v17.f_not_, Generated.Schemas.v17.s_Not_1), 
+   ("v17._OneHot", Generated.Ctors.v17.f_one_hot, Generated.Schemas.v17.s_OneHot_11), 
+   ("v17._Optional", Generated.Ctors.v17.f_optional, Generated.Schemas.v17.s_Optional_15), 
+   ("v17._OptionalGetElement", Generated.Ctors.v17.f_optional_get_element, Generated.Schemas.v17.s_OptionalGetElement_15), 
+   ("v17._OptionalHasElement", Generated.Ctors.v17.f_optional_has_element, Generated.Schemas.v17.s_OptionalHasElement_15), 
+   ("v17._Or", Generated.Ctors.v17.f_or_, Generated.Schemas.v17.s_Or_7), 
+   ("v17._PRelu", Generated.Ctors.v17.f_prelu, Generated.Schemas.v17.s_PRelu_16), 
+   ("v17._Pad", Generated.Ctors.v17.f_pad, Generated.Schemas.v17.s_Pad_13), 
+   ("v17._Pow", Generated.Ctors.v17.f_pow, Generated.Schemas.v17.s_Pow_15), 
+   ("v17._QLinearConv", Generated.Ctors.v17.f_qlinear_conv, Generated.Schemas.v17.s_QLinearConv_10), 
+   ("v17._QLinearMatMul", Generated.Ctors.v17.f_qlinear_matmul, Generated.Schemas.v17.s_QLinearMatMul_10), 
+   ("v17._QuantizeLinear", Generated.Ctors.v17.f_quantize_linear, Generated.Schemas.v17.s_QuantizeLinear_13), 
+   ("v17._RNN", Generated.Ctors.v17.f_rnn, Generated.Schemas.v17.s_RNN_14), 
+   ("v17._RandomNormal", Generated.Ctors.v17.f_random_normal, Generated.Schemas.v17.s_RandomNormal_1), 
+   ("v17._RandomNormalLike", Generated.Ctors.v17.f_random_normal_like, Generated.Schemas.v17.s_RandomNormalLike_1), 
+   ("v17._RandomUniform", Generated.Ctors.v17.f_random_uniform, Generated.Schemas.v17.s_RandomUniform_1), 
+   ("v17._RandomUniformLike", Generated.Ctors.v17.f_random_uniform_like, Generated.Schemas.v17.s_RandomUniformLike_1), 
+   ("v17._Range", Generated.Ctors.v17.f_range, Generated.Schemas.v17.s_Range_11), 
+   ("v17._Reciprocal", Generated.Ctors.v17.f_reciprocal, Generated.Schemas.v17.s_Reciprocal_13), 
+   ("v17._ReduceL1", Generated.Ctors.v17.f_reduce_l1, Generated.Schemas.v17.s_ReduceL1_13), 
+   ("v17._ReduceL2", Generated.Ctors.v17.f_reduce_l2, Generated.Schemas.v17.s_ReduceL2_13), 
+   ("v17._ReduceLogSum", Generated.Ctors.v17.f_reduce_log_sum, Generated.Schemas.v17.s_ReduceLogSum_13), 
+   ("v17._ReduceLogSumExp", Generated.Ctors.v17.f_reduce_log_sum_exp, Generated.Schemas.v17.s_ReduceLogSumExp_13), 
+   ("v17._ReduceMax", Generated.Ctors.v17.f_reduce_max, Generated.Schemas.v17.s_ReduceMax_13), 
+   ("v17._ReduceMean", Generated.Ctors.v17.f_reduce_mean, Generated.Schemas.v17.s_ReduceMean_13), 
+   ("v17._ReduceMin", Generated.Ctors.v17.f_reduce_min, Generated.Schemas.v17.s_ReduceMin_13), 
+   ("v17._ReduceProd", Generated.Ctors.v17.f_reduce_prod, Generated.Schemas.v17.s_ReduceProd_13), 
+   ("v17._ReduceSum", Generated.Ctors.v17.f_reduce_sum, Generated.Schemas.v17.s_ReduceSum_13), 
+   ("v17._ReduceSumSquare", Generated.Ctors.v17.f_reduce_sum_square, Generated.Schemas.v17.s_ReduceSumSquare_13), 
+   ("v17._Relu", Generated.Ctors.v17.f_relu, Generated.Schemas.v17.s_Relu_14), 
+   ("v17._Reshape", Generated.Ctors.v17.f_reshape, Generated.Schemas.v17.s_Reshape_14), 
+   ("v17._Resize", Generated.Ctors.v17.f_resize, Generated.Schemas.v17.s_Resize_13), 
+   ("v17._ReverseSequence", Generated.Ctors.v17.f_reverse_sequence, Generated.Schemas.v17.s_ReverseSequence_10), 
+   ("v17._RoiAlign", Generated.Ctors.v17.f_roi_align, Generated.Schemas.v17.s_RoiAlign_16), 
+   ("v17._Round", Generated.Ctors.v17.f_round, Generated.Schemas.v17.s_Round_11), 
+   ("v17._STFT", Generated.Ctors.v17.f_stft, Generated.Schemas.v17.s_STFT_17), 
+   ("v17._Scan", Generated.Ctors.v17.f_scan, Generated.Schemas.v17.s_Scan_16), 
+   ("v17._ScatterElements", Generated.Ctors.v17.f_scatter_elements, Generated.Schemas.v17.s_ScatterElements_16), 
+   ("v17._ScatterND", Generated.Ctors.v17.f_scatter_nd, Generated.Schemas.v17.s_ScatterND_16), 
+   ("v17._Selu", Generated.Ctors.v17.f_selu, Generated.Schemas.v17.s_Selu_6), 
+   ("v17._SequenceAt", Generated.Ctors.v17.f_sequence_at, Generated.Schemas.v17.s_SequenceAt_11), 
+   ("v17._SequenceConstruct", Generated.Ctors.v17.f_sequence_construct, Generated.Schemas.v17.s_SequenceConstruct_11), 
+   ("v17._SequenceEmpty", Generated.Ctors.v17.f_sequence_empty, Generated.Schemas.v17.s_SequenceEmpty_11), 
+   ("v17._SequenceErase", Generated.Ctors.v17.f_sequence_erase, Generated.Schemas.v17.s_SequenceErase_11), 
+   ("v17._SequenceInsert", Generated.Ctors.v17.f_sequence_insert, Generated.Schemas.v17.s_SequenceInsert_11), 
+   ("v17._SequenceLength", Generated.Ctors.v17.f_sequence_length, Generated.Schemas.v17.s_SequenceLength_11), 
+   ("v17._SequenceMap", Generated.Ctors.v17.f_sequence_map, Generated.Schemas.v17.s_SequenceMap_17), 
+   ("v17._Shape", Generated.Ctors.v17.f_shape, Generated.Schemas.v17.s_Shape_15), 
+   ("v17._Shrink", Generated.Ctors.v17.f_shrink, Generated.Schemas.v17.s_Shrink_9), 
+   ("v17._Sigmoid", Generated.Ctors.v17.f_sigmoid, Generated.Schemas.v17.s_Sigmoid_13), 
+   ("v17._Sign", Generated.Ctors.v17.f_sign, Generated.Schemas.v17.s_Sign_13), 
+   ("v17._Sin", Generated.Ctors.v17.f_sin, Generated.Schemas.v17.s_Sin_7), 
+   ("v17._Sinh", Generated.Ctors.v17.f_sinh, Generated.Schemas.v17.s_Sinh_9), 
+   ("v17._Size", Generated.Ctors.v17.f_size, Generated.Schemas.v17.s_Size_13), 
+   ("v17._Slice", Generated.Ctors.v17.f_slice, Generated.Schemas.v17.s_Slice_13), 
+   ("v17._Softmax", Generated.Ctors.v17.f_softmax, Generated.Schemas.v17.s_Softmax_13), 
+   ("v17._SoftmaxCrossEntropyLoss", Generated.Ctors.v17.f_softmax_cross_entropy_loss, Generated.Schemas.v17.s_SoftmaxCrossEntropyLoss_13), 
+   ("v17._Softplus", Generated.Ctors.v17.f_softplus, Generated.Schemas.v17.s_Softplus_1), 
+   ("v17._Softsign", Generated.Ctors.v17.f_softsign, Generated.Schemas.v17.s_Softsign_1), 
+   ("v17._SpaceToDepth", Generated.Ctors.v17.f_space_to_depth, Generated.Schemas.v17.s_SpaceToDepth_13), 
+   ("v17._Split", Generated.Ctors.v17.f_split, Generated.Schemas.v17.s_Split_13), 
+   ("v17._SplitToSequence", Generated.Ctors.v17.f_split_to_sequence, Generated.Schemas.v17.s_SplitToSequence_11), 
+   ("v17._Sqrt", Generated.Ctors.v17.f_sqrt, Generated.Schemas.v17.s_Sqrt_13), 
+   ("v17._Squeeze", Generated.Ctors.v17.f_squeeze, Generated.Schemas.v17.s_Squeeze_13), 
+   ("v17._StringNormalizer", Generated.Ctors.v17.f_string_normalizer, Generated.Schemas.v17.s_StringNormalizer_10), 
+   ("v17._Sub", Generated.Ctors.v17.f_sub, Generated.Schemas.v17.s_Sub_14), 
+   ("v17._Sum", Generated.Ctors.v17.f_sum, Generated.Schemas.v17.s_Sum_13), 
+   ("v17._Tan", Generated.Ctors.v17.f_tan, Generated.Schemas.v17.s_Tan_7), 
+   ("v17._Tanh", Generated.Ctors.v17.f_tanh, Generated.Schemas.v17.s_Tanh_13), 
+   ("v17._TfIdfVectorizer", Generated.Ctors.v17.f_tf_idf_vectorizer, Generated.Schemas.v17.s_TfIdfVectorizer_9), 
+   ("v17._ThresholdedRelu", Generated.Ctors.v17.f_thresholded_relu, Generated.Schemas.v17.s_ThresholdedRelu_10), 
+   ("v17._Tile", Generated.Ctors.v17.f_tile, Generated.Schemas.v17.s_Tile_13), 
+   ("v17._TopK", Generated.Ctors.v17.f_top_k, Generated.Schemas.v17.s_TopK_11), 
+   ("v17._Transpose", Generated.Ctors.v17.f_transpose, Generated.Schemas.v17.s_Transpose_13), 
+   ("v17._Trilu", Generated.Ctors.v17.f_trilu, Generated.Schemas.v17.s_Trilu_14), 
+   ("v17._Unique", Generated.Ctors.v17.f_unique, Generated.Schemas.v17.s_Unique_11), 
+   ("v17._Unsqueeze", Generated.Ctors.v17.f_unsqueeze, Generated.Schemas.v17.s_Unsqueeze_13), 
+   ("v17._Where", Generated.Ctors.v17.f_where, Generated.Schemas.v17.s_Where_16), 
+   ("v17._Xor", Generated.Ctors.v17.f_xor, Generated.Schemas.v17.s_Xor_7)]
+
+theorem slots_all : allEntries.all slotOK = true :=
+  all_cons slots_v17_Abs (
+  all_cons slots_v17_Acos (
+  all_cons slots_v17_Acosh (
+  all_cons slots_v17_Add (
+  all_cons slots_v17_And (
+  all_cons slots_v17_ArgMax (
+  all_cons slots_v17_ArgMin (
+  all_cons slots_v17_Asin (
+  all_cons slots_v17_Asinh (
+  all_cons slots_v17_Atan (
+  all_cons slots_v17_Atanh (
+  all_cons slots_v17_AveragePool (
+  all_cons slots_v17_BatchNormalization (
+  all_cons slots_v17_Bernoulli (
+  all_cons slots_v17_BitShift (
+  all_cons slots_v17_BlackmanWindow (
+  all_cons slots_v17_Cast (
+  all_cons slots_v17_CastLike (
+  all_cons slots_v17_Ceil (
+  all_cons slots_v17_Celu (
+  all_cons slots_v17_Clip (
+  all_cons slots_v17_Compress (
+  all_cons slots_v17_Concat (
+  all_cons slots_v17_ConcatFromSequence (
+  all_cons slots_v17_Constant (
+  all_cons slots_v17_ConstantOfShape (
+  all_cons slots_v17_Conv (
+  all_cons slots_v17_ConvInteger (
+  all_cons slots_v17_ConvTranspose (
+  all_cons slots_v17_Cos (
+  all_cons slots_v17_Cosh (
+  all_cons slots_v17_CumSum (
+  all_cons slots_v17_DFT (
+  all_cons slots_v17_DepthToSpace (
+  all_cons slots_v17_DequantizeLinear (
+  all_cons slots_v17_Det (
+  all_cons slots_v17_Div (
+  all_cons slots_v17_Dropout (
+  all_cons slots_v17_DynamicQuantizeLinear (
+  all_cons slots_v17_Einsum (
+  all_cons slots_v17_Elu (
+  all_cons slots_v17_Equal (
+  all_cons slots_v17_Erf (
+  all_cons slots_v17_Exp (
+  all_cons slots_v17_Expand (
+  all_cons slots_v17_EyeLike (
+  all_cons slots_v17_Flatten (
+  all_cons slots_v17_Floor (
+  all_cons slots_v17_GRU (
+  all_cons slots_v17_Gather (
+  all_cons slots_v17_GatherElements (
+  all_cons slots_v17_GatherND (
+  all_cons slots_v17_Gemm (
+  all_cons slots_v17_GlobalAveragePool (
+  all_cons slots_v17_GlobalLpPool (
+  all_cons slots_v17_GlobalMaxPool (
+  all_cons slots_v17_Greater (
+  all_cons slots_v17_GreaterOrEqual (
+  all_cons slots_v17_GridSample (
+  all_cons slots_v17_HammingWindow (
+  all_cons slots_v17_HannWindow (
+  all_cons slots_v17_HardSigmoid (
+  all_cons slots_v17_HardSwish (
+  all_cons slots_v17_Hardmax (
+  all_cons slots_v17_Identity (
+  all_cons slots_v17_If (
+  all_cons slots_v17_InstanceNormalization (
+  all_cons slots_v17_IsInf (
+  all_cons slots_v17_IsNaN (
+  all_cons slots_v17_LRN (
+  all_cons slots_v17_LSTM (
+  all_cons slots_v17_LayerNormalization (
+  all_cons slots_v17_LeakyRelu (
+  all_cons slots_v17_Less (
+  all_cons slots_v17_LessOrEqual (
+  all_cons slots_v17_Log (
+  all_cons slots_v17_LogSoftmax (
+  all_cons slots_v17_Loop (
+  all_cons slots_v17_LpNormalization (
+  all_cons slots_v17_LpPool (
+  all_cons slots_v17_MatMul (
+  all_cons slots_v17_MatMulInteger (
+  all_cons slots_v17_Max (
+  all_cons slots_v17_MaxPool (
+  all_cons slots_v17_MaxRoiPool (
+  all_cons slots_v17_MaxUnpool (
+  all_cons slots_v17_Mean (
+  all_cons slots_v17_MeanVarianceNormalization (
+  all_cons slots_v17_MelWeightMatrix (
+  all_cons slots_v17_Min (
+  all_cons slots_v17_Mod (
+  all_cons slots_v17_Mul (
+  all_cons slots_v17_Multinomial (
+  all_cons slots_v17_Neg (
+  all_cons slots_v17_NegativeLogLikelihoodLoss (
+  all_cons slots_v17_NonMaxSuppression (
+  all_cons slots_v17_NonZero (
+  all_cons slots_v17_Not (
+  all_cons slots_v17_OneHot (
+  all_cons slots_v17_Optional (
+  all_cons slots_v17_OptionalGetElement (
+  all_cons slots_v17_OptionalHasElement (
+  all_cons slots_v17_Or (
+  all_cons slots_v17_PRelu (
+  all_cons slots_v17_Pad (
+  all_cons slots_v17_Pow (
+  all_cons slots_v17_QLinearConv (
+  all_cons slots_v17_QLinearMatMul (
+  all_cons slots_v17_QuantizeLinear (
+  all_cons slots_v17_RNN (
+  all_cons slots_v17_RandomNormal (
+  all_cons slots_v17_RandomNormalLike (
+  all_cons slots_v17_RandomUniform (
+  all_cons slots_v17_RandomUniformLike (
+  all_cons slots_v17_Range (
+  all_cons slots_v17_Reciprocal (
+  all_cons slots_v17_ReduceL1 (
+  all_cons slots_v17_ReduceL2 (
+  all_cons slots_v17_ReduceLogSum (
+  all_cons slots_v17_ReduceLogSumExp (
+  all_cons slots_v17_ReduceMax (
+  all_cons slots_v17_ReduceMean (
+  all_cons slots_v17_ReduceMin (
+  all_cons slots_v17_ReduceProd (
+  all_cons slots_v17_ReduceSum (
+  all_cons slots_v17_ReduceSumSquare (
+  all_cons slots_v17_Relu (
+  all_cons slots_v17_Reshape (
+  all_cons slots_v17_Resize (
+  all_cons slots_v17_ReverseSequence (
+  all_cons slots_v17_RoiAlign (
+  all_cons slots_v17_Round (
+  all_cons slots_v17_STFT (
+  all_cons slots_v17_Scan (
+  all_cons slots_v17_ScatterElements (
+  all_cons slots_v17_ScatterND (
+  all_cons slots_v17_Selu (
+  all_cons slots_v17_SequenceAt (
+  all_cons slots_v17_SequenceConstruct (
+  all_cons slots_v17_SequenceEmpty (
+  all_cons slots_v17_SequenceErase (
+  all_cons slots_v17_SequenceInsert (
+  all_cons slots_v17_SequenceLength (
+  all_cons slots_v17_SequenceMap (
+  all_cons slots_v17_Shape (
+  all_cons slots_v17_Shrink (
+  all_cons slots_v17_Sigmoid (
+  all_cons slots_v17_Sign (
+  all_cons slots_v17_Sin (
+  all_cons slots_v17_Sinh (
+  all_cons slots_v17_Size (
+  all_cons slots_v17_Slice (
+  all_cons slots_v17_Softmax (
+  all_cons slots_v17_SoftmaxCrossEntropyLoss (
+  all_cons slots_v17_Softplus (
+  all_cons slots_v17_Softsign (
+  all_cons slots_v17_SpaceToDepth (
+  all_cons slots_v17_Split (
+  all_cons slots_v17_SplitToSequence (
+  all_cons slots_v17_Sqrt (
+  all_cons slots_v17_Squeeze (
+  all_cons slots_v17_StringNormalizer (
+  all_cons slots_v17_Sub (
+  all_cons slots_v17_Sum (
+  all_cons slots_v17_Tan (
+  all_cons slots_v17_Tanh (
+  all_cons slots_v17_TfIdfVectorizer (
+  all_cons slots_v17_ThresholdedRelu (
+  all_cons slots_v17_Tile (
+  all_cons slots_v17_TopK (
+  all_cons slots_v17_Transpose (
+  all_cons slots_v17_Trilu (
+  all_cons slots_v17_Unique (
+  all_cons slots_v17_Unsqueeze (
+  all_cons slots_v17_Where (
+  all_cons slots_v17_Xor (
+  all_nil))))))))))))))))))))))))))))))))))))))))))))))))))))))))))))))))))))))))))))))))))))))))))))))))))))))))))))))))))))))))))))))))))))))))))))))))))))))))))))))))))))))))))))))))
+
+theorem table_slots : ∀ e ∈ allEntries, slotOK e = true :=
+  fun e he => List.all_eq_true.mp slots_all e he
 
 /-- pairs with listed deviations (known findings), each with what is excepted -/
 def deviating : List (List String × Entry) :=
